@@ -4,7 +4,7 @@ import builtins
 
 from sa.astutil import (norm, guards_of, walk_no_nested, always_exits, exit_kind, parent, preceding_stmts,
                         names_in, dotted)
-from sa.c11_util import SrcBuilder, Sym, Paths, known_atoms, const_truth, key_mentions
+from sa.c11_util import SrcBuilder, Sym, Paths, known_atoms, const_truth
 from sa.errors import AnalysisError
 from sa.loader import _set_parents
 from sa.minieval import Evaluator
@@ -15,6 +15,7 @@ DYN = 'pymtl3/passes/sim/DynamicSchedulePass.py'
 MAMBA = 'pymtl3/passes/mamba/Mamba2020Pass.py'
 SIMPLE = 'pymtl3/passes/sim/SimpleSchedulePass.py'
 TICK = 'pymtl3/passes/sim/SimpleTickPass.py'
+GENDAG = 'pymtl3/passes/sim/GenDAGPass.py'
 OPENLOOP = 'pymtl3/passes/autotick/OpenLoopCLPass.py'
 ERRORS = 'pymtl3/dsl/errors.py'
 
@@ -25,6 +26,15 @@ WRAPPERS = {'sorted', 'list', 'tuple', 'reversed', 'set', 'frozenset', 'iter'}
 
 # ---------------------------------------------------------------------------
 # small helpers
+def _floor(r, n):
+    """instance floor against vacuous passes; a rule that already reports findings (e.g. a generated source that
+    no longer compiles yields fewer analysable instances) keeps its findings instead of turning into an error"""
+    if r.findings:
+        r.floor = n
+    else:
+        r.require_floor(n)
+
+
 def strip_wrappers(e):
     """sorted(X, key=..) / list(X) / reversed(X) ... -> X : wrappers that keep every element"""
     while isinstance(e, ast.Call) and isinstance(e.func, ast.Name) and e.func.id in WRAPPERS and e.args:
@@ -73,6 +83,8 @@ class Impl:
         self.root = self.mod.get_func(qual)
         self.outer = self.mod.get_func(outer_qual) if outer_qual else self.root
         self._located = False
+        self.scc_name = None
+        self._collected = False
         self._emits = None
         self._gens = None
 
@@ -113,7 +125,8 @@ class Impl:
             raise AnalysisError(f"{self.qual}: reduction loop adds to {sorted(recv)}; expected one watch set")
         self.FV = recv.pop()
         core = strip_wrappers(red.iter)
-        vnames = [n.id for n in ast.walk(core) if isinstance(n, ast.Name)]
+        vnames = [n.id for n in ast.walk(core) if isinstance(n, ast.Name) and n.id not in WRAPPERS
+                  and n.id not in dir(builtins)]
         if not vnames:
             raise AnalysisError(f"{self.qual}: reduction loop iterates {norm(red.iter)}")
         self.VARS = core.id if isinstance(core, ast.Name) else vnames[0]
@@ -150,10 +163,18 @@ class Impl:
                      and mentions(f.iter, self.D) and mentions(f.iter, self.H)]
         else:
             raise AnalysisError(f"{self.qual}: loop over the host groups has an unexpected shape: {norm(outer.iter)}")
-        if len(inner) != 1 or not isinstance(inner[0].target, ast.Name):
+        if len(inner) != 1:
             raise AnalysisError(f"{self.qual}: cannot locate the per-variable emission loop")
         self.inner_loop = inner[0]
-        self.V = inner[0].target.id
+        it = strip_wrappers(inner[0].iter)
+        pair = inner[0].target.elts if isinstance(inner[0].target, (ast.Tuple, ast.List)) else None
+        if isinstance(inner[0].target, ast.Name):
+            self.V = inner[0].target.id
+        elif isinstance(it, ast.Call) and norm(it.func) == 'enumerate' and pair and len(pair) == 2 \
+                and isinstance(pair[1], ast.Name):
+            self.V = pair[1].id
+        else:
+            raise AnalysisError(f"{self.qual}: per-variable emission loop has target {norm(inner[0].target)}")
         self._located = True
 
     # -- partial evaluation of the generated source ---------------------------------
@@ -255,7 +276,8 @@ class Gen:
 
     def _label(self):
         kinds = '+'.join(k for _, _, k in self.snapshots) or 'none'
-        hosts = len({v.rsplit('.', 1)[0] for _, v, _ in self.snapshots})
+        hosts = len({max((h for h in HOST_REPRS if v.startswith(h + '.')), key=len, default='?')
+                     for _, v, _ in self.snapshots})
         return (f"{self.impl.name}: {len(self.snapshots)} snapshot(s) [{kinds}] on {hosts} host(s), "
                 f"{len(self.calls)} block call(s) [{', '.join(self._callee_kind(c) for c in self.calls)}]")
 
@@ -424,6 +446,13 @@ class Gen:
 
     # T3: every while loop is left after a bounded number of iterations
     def _bounded(self):
+        for lp in [n for n in ast.walk(self.F) if isinstance(n, ast.For)]:
+            it = lp.iter
+            if isinstance(it, ast.Call) and norm(it.func) == 'range' and len(it.args) == 1 \
+                    and isinstance(it.args[0], ast.Constant) and isinstance(it.args[0].value, int) \
+                    and any(is_block_call(x) for x in ast.walk(lp)):
+                # K passes at most; leaving by exhaustion is judged by the exit rule (must raise)
+                self.bounds.append(it.args[0].value + 1)
         for lp in self.whiles:
             if const_truth(lp.test) is False:
                 continue
@@ -551,3 +580,1739 @@ def _other_side_leaves(test, taken):
         return False
     blk = p.orelse if taken else p.body
     return bool(blk) and always_exits(blk) and 'continue' not in exit_kind(blk)
+
+
+# ---------------------------------------------------------------------------
+# R-C11-template
+BUILTIN_NAMES = set(dir(builtins))
+
+
+def _check_names(im, g):
+    out = []
+    glob = g.emit.globals
+    if not isinstance(glob, dict):
+        raise AnalysisError(f"{im.qual}: the globals handed to exec are not a statically known dictionary")
+    if any(isinstance(k, str) and k.startswith('**') for k in glob):
+        raise AnalysisError(f"{im.qual}: the globals handed to exec are merged from an unknown mapping")
+    tree, F = g.tree, g.F
+    defined = set(BUILTIN_NAMES) | {k for k in glob if isinstance(k, str)}
+    imported = {}
+    for n in ast.walk(tree):
+        if isinstance(n, ast.Name) and isinstance(n.ctx, ast.Store):
+            defined.add(n.id)
+        elif isinstance(n, ast.FunctionDef):
+            defined.add(n.name)
+        elif isinstance(n, ast.ImportFrom):
+            for a in n.names:
+                defined.add(a.asname or a.name)
+                imported[a.asname or a.name] = (n.module, a.name)
+        elif isinstance(n, ast.Import):
+            for a in n.names:
+                defined.add((a.asname or a.name).split('.')[0])
+    for n in ast.walk(tree):
+        if isinstance(n, ast.Name) and isinstance(n.ctx, ast.Load) and n.id not in defined:
+            out.append(('unbound', n.id, f"generated super-block uses `{n.id}` but neither the source nor the globals "
+                                         f"dictionary given to exec binds it: NameError when the cycle is evaluated"))
+    # the root of every watched access path is the top component
+    roots = {v.split('.')[0].split('[')[0] for v in g.W}
+    params = {a.arg for a in im.outer.args.args[1:]} | {a.arg for a in im.root.args.args}
+    for rt in sorted(roots):
+        v = glob.get(rt)
+        if rt in glob and not (isinstance(v, Sym) and v.key[0] == 'free' and v.key[1] in params and v.key[1] != 'self'
+                               and v.key[1] == im.top_name()):
+            out.append(('root', rt, f"`{rt}` in the generated block is bound to {v!r}, not to the top-level component "
+                                    f"whose signals the snapshot lines name"))
+    # deepcopy really is copy.deepcopy
+    if any(isinstance(n, ast.Name) and n.id == 'deepcopy' for n in ast.walk(F)):
+        okc = imported.get('deepcopy') == ('copy', 'deepcopy')
+        v = glob.get('deepcopy')
+        if not okc and isinstance(v, Sym) and v.key[0] == 'free':
+            okc = im.mod.imports.get(v.key[1]) == ('copy', 'deepcopy')
+        if not okc and 'deepcopy' in defined:
+            out.append(('deepcopy', 'deepcopy', "`deepcopy` in the generated block is not copy.deepcopy: the snapshot of "
+                                                "a non-Bits signal is not an independent copy"))
+    return out
+
+
+def _check_raises(im, g):
+    out = []
+    glob = g.emit.globals if isinstance(g.emit.globals, dict) else {}
+    imported = {}
+    for n in ast.walk(g.tree):
+        if isinstance(n, ast.ImportFrom):
+            for a in n.names:
+                imported[a.asname or a.name] = (n.module, a.name)
+    rs = g.raises()
+    for rz in rs:
+        e = rz.exc.func if isinstance(rz.exc, ast.Call) else rz.exc
+        nm = e.id if isinstance(e, ast.Name) else None
+        good = False
+        if nm is not None:
+            v = glob.get(nm)
+            if isinstance(v, Sym) and v.key[0] == 'free':
+                good = im.resolves_to_class(v.key[1], 'UpblkCyclicError', ERRORS)
+            elif imported.get(nm) == ('pymtl3.dsl.errors', 'UpblkCyclicError'):
+                good = True
+        if not good:
+            out.append(('class', norm(rz)[:80], f"the generated block raises `{norm(e) if e is not None else 're-raise'}`, "
+                                                f"which is not pymtl3.dsl.errors.UpblkCyclicError: a cycle that does not "
+                                                f"settle is not reported as a cyclic-dependency error"))
+    if not rs:
+        out.append(('noraise', g.F.name, "generated block never raises: a cycle that does not settle is not reported"))
+    return out
+
+
+def _top_name(self):
+    """name of the parameter holding the top-level component: the object whose _dag is read"""
+    for n in ast.walk(self.outer):
+        if isinstance(n, ast.Attribute) and n.attr == '_dag' and isinstance(n.value, ast.Name):
+            return n.value.id
+    raise AnalysisError(f"{self.qual}: cannot identify the top-level component parameter")
+
+
+Impl.top_name = _top_name
+
+TEMPLATE_CHECKS = (
+    ('parse', "generated source compiles and binds the function the pass retrieves"),
+    ('names', "every name used by the generated block is bound (globals of exec / generated imports)"),
+    ('bounded', "iteration counter: constant start, stepped on every pass, exceeding the constant raises"),
+    ('exit', "every normal exit follows snapshot -> all blocks -> every watched variable compared unchanged"),
+    ('raise', "the only exception raised is UpblkCyclicError"),
+)
+
+
+_PROBE_HOST = """
+def host_fn(code, g):
+    l = {}
+    custom_exec(code, g, l)
+    return l['generated_block']
+"""
+_PROBES = [
+    # (generated source, problem kinds the analysis must report)
+    ("""
+def f():
+  N = 0
+  while True:
+    N += 1
+    if N > 100: raise UpblkCyclicError("x")
+    host=s; t1=host.a
+    blk0()
+    if host.a != t1: continue
+    break
+generated_block = f
+""", {'alias', 'nosnap'}),
+    ("""
+def f():
+  N = 0
+  while True:
+    N += 1
+    if N > 100: raise UpblkCyclicError("x")
+    host=s; t1=host.a.clone(); t2=host.b.clone()
+    blk0()
+    if host.a != t1: continue
+    if host.b != t2: break
+    break
+generated_block = f
+""", {'unstable'}),
+    ("""
+def f():
+  while True:
+    t1=s.a.clone()
+    blk0()
+    if s.a != t1: continue
+    break
+generated_block = f
+""", {'unbounded'}),
+    ("""
+def f():
+  N = 0
+  while True:
+    N += 1
+    if N > 100: raise UpblkCyclicError("x")
+    t1=s.a.clone(); t2=s.b.clone()
+    blk0()
+    if s.a != t2 or s.b != t1: continue
+    break
+generated_block = f
+""", {'mismatch'}),
+]
+
+
+def _self_probe():
+    """embedded positive examples: broken super-blocks the path analysis must flag on every run"""
+    host = ast.parse(_PROBE_HOST)
+    _set_parents(host)
+    call = [n for n in ast.walk(host) if isinstance(n, ast.Call) and norm(n.func) == 'custom_exec'][0]
+    from sa.c11_util import Emit
+    n = 0
+    for src, want in _PROBES:
+        g = Gen(_Stub('probe'), Emit(src, src, {}, call, host.body[0], [], {}))
+        got = {k for _, k, _, _ in g.problems}
+        if not want <= got:
+            raise AnalysisError(f"R-C11-template: embedded broken example not flagged (expected {sorted(want)}, got {sorted(got)})")
+        n += 1
+    return n
+
+
+class _Stub:
+    def __init__(self, name):
+        self.name = name
+
+
+def rule_template(repo):
+    r = RuleResult('R-C11-template',
+                   "the generated SCC super-block (template + generated lines, partially evaluated and parsed) never "
+                   "hangs (bounded counter -> UpblkCyclicError) and never returns unless a complete pass left every "
+                   "snapshotted variable unchanged")
+    for im in impls(repo):
+        for g in im.gens():
+            r.evaluations += g.all_paths
+            extra = {}
+            if g.F is not None:
+                extra['names'] = _check_names(im, g)
+                extra['raise'] = _check_raises(im, g)
+            for check, title in TEMPLATE_CHECKS:
+                if g.F is None and check != 'parse':
+                    continue
+                probs = g.probs(check) + extra.get(check, [])
+                cons = f"{g.label}: {title}"
+                if not probs:
+                    r.ok(im.mod, im.qual, cons)
+                for kind, c, msg in probs:
+                    r.bad(im.mod, im.qual, f"{g.label}: {kind}: {c}", msg, getattr(g.emit.call, 'lineno', 0))
+    r.evaluations += _self_probe()
+    _floor(r, 200)
+    return r
+
+
+# ---------------------------------------------------------------------------
+# R-C11-watch
+def _enclosing_for(node, stop):
+    p = parent(node)
+    while p is not None and p is not stop:
+        if isinstance(p, ast.For):
+            return p
+        p = parent(p)
+    return None
+
+
+def _stmt_of(node):
+    while node is not None and not isinstance(node, ast.stmt):
+        node = parent(node)
+    return node
+
+
+def _pair_names(t):
+    if isinstance(t, (ast.Tuple, ast.List)) and len(t.elts) == 2 and all(isinstance(x, ast.Name) for x in t.elts):
+        return [x.id for x in t.elts]
+    return None
+
+
+def _membership_region(tests, u, v):
+    """tests: [(expr, polarity)].  Returns (region dict over (u_in, v_in), set names, extra atoms)"""
+    sets, extra = set(), []
+
+    def mk_leaf(ui, vi):
+        def leaf(e):
+            if isinstance(e, ast.Compare) and len(e.ops) == 1 and isinstance(e.ops[0], (ast.In, ast.NotIn)) \
+                    and isinstance(e.left, ast.Name) and e.left.id in (u, v) and isinstance(e.comparators[0], ast.Name):
+                sets.add(e.comparators[0].id)
+                val = ui if e.left.id == u else vi
+                return val if isinstance(e.ops[0], ast.In) else not val
+            if isinstance(e, (ast.BoolOp, ast.UnaryOp)):
+                return NotImplemented
+            extra.append(norm(e))
+            return True
+        return leaf
+    region = {}
+    for ui in (False, True):
+        for vi in (False, True):
+            ok = True
+            for t, pol in tests:
+                if bool(Evaluator({}, leaf=mk_leaf(ui, vi)).ev(t)) != pol:
+                    ok = False
+            region[(ui, vi)] = ok
+    return region, sets, sorted(set(extra))
+
+
+def _check_collection(r, im):
+    im.locate()
+    im._collected = True
+    root, m, fn = im.root, im.mod, im.qual
+    grows = []
+    for n in walk_no_nested(root):
+        if isinstance(n, ast.Call) and isinstance(n.func, ast.Attribute) and isinstance(n.func.value, ast.Name) \
+                and n.func.value.id == im.VARS and n.func.attr in ('update', 'add', 'union') and len(n.args) == 1:
+            grows.append((n, n.args[0]))
+        elif isinstance(n, ast.AugAssign) and isinstance(n.target, ast.Name) and n.target.id == im.VARS \
+                and isinstance(n.op, ast.BitOr):
+            grows.append((n, n.value))
+    if not isinstance(im.red_iter_core, ast.Name):
+        r.bad(m, fn, f"for {im.X} in {norm(im.red.iter)}",
+              f"the reduction to the watched set iterates `{norm(im.red.iter)}`, not the whole set of cycle-carrying "
+              f"variables: a variable left out is never compared", im.red.lineno)
+    else:
+        r.ok(m, fn, f"reduction iterates every element of {im.VARS}")
+    if not grows:
+        r.bad(m, fn, im.VARS, f"the set {im.VARS} of cycle-carrying variables is never filled", im.red.lineno)
+        return
+    for node, arg in grows:
+        loop = _enclosing_for(node, root)
+        uv = _pair_names(loop.target) if loop is not None else None
+        if uv is None:
+            raise AnalysisError(f"{fn}: `{norm(node)}` is not inside a loop over (u, v) edges")
+        u, v = uv
+        cons = norm(node)
+        # 1. what is united: constraint_objs[(u, v)]
+        co = im.value_of(arg.value.id) if isinstance(arg, ast.Subscript) and isinstance(arg.value, ast.Name) else None
+        key = _pair_names(arg.slice) if isinstance(arg, ast.Subscript) else None
+        if co is None or not (isinstance(co, ast.Attribute) and co.attr == 'constraint_objs') or key is None:
+            r.bad(m, fn, cons, f"the watched set is filled from `{norm(arg)}`, not from the objects that induce the "
+                               f"edge (top._dag.constraint_objs[(u, v)])", node.lineno)
+        elif key == [u, v]:
+            r.ok(m, fn, f"{cons}: key is the edge (writer, reader) as iterated")
+        elif key == [v, u]:
+            r.bad(m, fn, cons, f"constraint_objs is keyed (writer block, reader block) but is indexed with "
+                               f"({v}, {u}) for the edge ({u}, {v}): the defaultdict returns the variables of the reverse "
+                               f"edge or nothing, so variables that carry the cycle are not watched", node.lineno)
+        else:
+            raise AnalysisError(f"{fn}: constraint_objs indexed by {norm(arg.slice)} inside a loop over ({u}, {v})")
+        # 2. no filter other than membership of both ends
+        tests = [(g.test, g.polarity) for g in guards_of(_stmt_of(node), stop=loop) if g.kind in ('if', 'exit', 'assert')]
+        region, sets, extra = _membership_region(tests, u, v)
+        r.evaluations += 4 * max(1, len(tests))
+        if extra:
+            r.bad(m, fn, f"guard of {cons}", f"the union over the edges of the SCC is filtered by `{'`, `'.join(extra)}`: "
+                                            f"variables of the skipped edges are not watched", node.lineno)
+        elif not region[(True, True)]:
+            r.bad(m, fn, f"guard of {cons}", "an edge with both ends inside the SCC does not contribute its variables",
+                  node.lineno)
+        elif len(sets) > 1:
+            r.bad(m, fn, f"guard of {cons}", f"the two ends of an edge are tested against different sets {sorted(sets)}",
+                  node.lineno)
+        else:
+            r.ok(m, fn, f"guard of {cons}: only membership of both ends in the SCC")
+            if sets:
+                im.scc_name = sorted(sets)[0]
+        # 3. all edges are visited, in the orientation they were stored
+        core = strip_wrappers(loop.iter)
+        if not isinstance(core, ast.Name):
+            r.bad(m, fn, f"for ({u}, {v}) in {norm(loop.iter)}", "the loop that collects the cycle-carrying variables does "
+                  "not visit the whole edge set", loop.lineno)
+            continue
+        adds = [c for c in walk_no_nested(im.outer) if is_method_call(c, 'add') and isinstance(c.func.value, ast.Name)
+                and c.func.value.id == core.id and len(c.args) == 1]
+        if not adds:
+            raise AnalysisError(f"{fn}: cannot find where the edge set {core.id} is filled")
+        for a in adds:
+            lp = _enclosing_for(a, im.outer)
+            ab = _pair_names(lp.target) if lp is not None else None
+            el = _pair_names(a.args[0])
+            src_ok = lp is not None and isinstance(strip_wrappers(lp.iter), ast.Attribute) \
+                and strip_wrappers(lp.iter).attr == 'all_constraints'
+            if ab is None or el is None or not src_ok:
+                raise AnalysisError(f"{fn}: edge set {core.id} is filled by `{norm(a)}` in an unexpected way")
+            if el == ab:
+                r.ok(m, fn, f"{norm(a)}: edges stored as iterated from all_constraints")
+            else:
+                r.bad(m, fn, norm(a), f"edge set {core.id} stores {tuple(el)} for the constraint {tuple(ab)}: the keys used "
+                                      f"for constraint_objs do not match", a.lineno)
+
+
+def _check_reduction(r, im):
+    im.locate()
+    m, fn, red, X, FV = im.mod, im.qual, im.red, im.X, im.FV
+    paths = Paths(max_iter=1).block(red.body)
+    table = []
+    for events, outcome in paths:
+        r.evaluations += 1
+        wset, adds, covered, conds = set(), set(), False, []
+        for ev in events:
+            if ev[0] == 'stmt':
+                st = ev[1]
+                if isinstance(st, ast.Assign):
+                    for t in st.targets:
+                        for nm in [x.id for x in ast.walk(t) if isinstance(x, ast.Name)]:
+                            wset.discard(nm)
+                    if len(st.targets) == 1 and isinstance(st.targets[0], ast.Name) and \
+                            is_method_call(st.value, 'get_top_level_signal') and norm(st.value.func.value) == X:
+                        wset.add(st.targets[0].id)
+                elif isinstance(st, ast.Expr) and is_method_call(st.value, 'add') and norm(st.value.func.value) == FV \
+                        and len(st.value.args) == 1:
+                    a = st.value.args[0]
+                    if isinstance(a, ast.Name) and a.id == X:
+                        adds.add('x')
+                    elif isinstance(a, ast.Name) and a.id in wset:
+                        adds.add('w')
+                    elif is_method_call(a, 'get_top_level_signal') and norm(a.func.value) == X:
+                        adds.add('w')
+            elif ev[0] == 'branch':
+                conds.append((ev[1], ev[2]))
+                for atom, truth in known_atoms(ev[1], ev[2]):
+                    if isinstance(atom, ast.Compare) and len(atom.ops) == 1 and isinstance(atom.ops[0], (ast.In, ast.NotIn)) \
+                            and isinstance(atom.left, ast.Name) and atom.left.id in wset \
+                            and norm(atom.comparators[0]) == FV:
+                        if truth == isinstance(atom.ops[0], ast.In):
+                            covered = True
+        ctext = ' and '.join(f"{'' if t else 'not '}({norm(c)})" for c, t in conds) or 'always'
+        if outcome == 'raise':
+            continue
+        if outcome in ('break', 'return'):
+            r.bad(m, fn, f"reduction path [{ctext}]", f"the reduction loop is left early on this path: the remaining "
+                                                      f"cycle-carrying variables are never watched", red.lineno)
+            continue
+        kind = 'itself' if 'x' in adds else 'top-level signal' if 'w' in adds else \
+            'top-level signal already watched' if covered else None
+        table.append((ctext, kind))
+        if kind is None:
+            r.bad(m, fn, f"reduction path [{ctext}]",
+                  f"a cycle-carrying variable with [{ctext}] is neither added to {FV} itself nor covered by its top-level "
+                  f"signal: it can still be changing when the super-block returns", red.lineno)
+        else:
+            r.ok(m, fn, f"reduction path [{ctext}]: watched via {kind}")
+    im.red_table = table
+
+
+def _count_appends(events):
+    """receiver list -> number of elements appended along the events"""
+    cnt = {}
+    for ev in events:
+        if ev[0] != 'stmt':
+            continue
+        st = ev[1]
+        if isinstance(st, ast.Expr) and isinstance(st.value, ast.Call) and isinstance(st.value.func, ast.Attribute) \
+                and isinstance(st.value.func.value, ast.Name):
+            f = st.value.func
+            if f.attr == 'append' and len(st.value.args) == 1:
+                cnt[f.value.id] = cnt.get(f.value.id, 0) + 1
+            elif f.attr == 'extend' and len(st.value.args) == 1 and isinstance(st.value.args[0], (ast.List, ast.Tuple)):
+                cnt[f.value.id] = cnt.get(f.value.id, 0) + len(st.value.args[0].elts)
+        elif isinstance(st, ast.AugAssign) and isinstance(st.target, ast.Name) and isinstance(st.op, ast.Add) \
+                and isinstance(st.value, (ast.List, ast.Tuple)):
+            cnt[st.target.id] = cnt.get(st.target.id, 0) + len(st.value.elts)
+    return cnt
+
+
+def _check_flow(r, im):
+    """watch set -> per-host groups -> one snapshot line and one comparison per element"""
+    im.locate()
+    m, fn = im.mod, im.qual
+    g = im.group
+    # grouping
+    core = strip_wrappers(g.iter)
+    if not (isinstance(core, ast.Name) and core.id == im.FV):
+        r.bad(m, fn, f"for {norm(g.target)} in {norm(g.iter)}", f"the grouping loop does not visit every element of "
+              f"{im.FV}: a watched variable that is skipped gets no snapshot and no comparison", g.lineno)
+    elif not isinstance(g.target, ast.Name):
+        raise AnalysisError(f"{fn}: grouping loop target {norm(g.target)}")
+    else:
+        x = g.target.id
+        good = True
+        for events, outcome in Paths(max_iter=1).block(g.body):
+            r.evaluations += 1
+            if outcome == 'raise':
+                continue
+            filed = [ev[1].value for ev in events if ev[0] == 'stmt' and isinstance(ev[1], ast.Expr)
+                     and isinstance(ev[1].value, ast.Call) and isinstance(ev[1].value.func, ast.Attribute)
+                     and ev[1].value.func.attr in ('append', 'add') and isinstance(ev[1].value.func.value, ast.Subscript)
+                     and norm(ev[1].value.func.value.value) == im.D and [norm(a) for a in ev[1].value.args] == [x]]
+            conds = ' and '.join(f"{'' if ev[2] else 'not '}({norm(ev[1])})" for ev in events if ev[0] == 'branch')
+            if outcome in ('break', 'return') or len(filed) != 1:
+                good = False
+                r.bad(m, fn, f"grouping path [{conds or 'always'}]", f"an element of {im.FV} is filed {len(filed)} times under "
+                      f"its host on this path: it is {'lost' if not filed else 'duplicated'} before the snapshot lines are "
+                      f"generated", g.lineno)
+                continue
+            key = filed[0].func.value.slice
+            if not (is_method_call(key, 'get_host_component') and norm(key.func.value) == x):
+                good = False
+                r.bad(m, fn, norm(filed[0]), f"watched variables are grouped by `{norm(key)}`; the snapshot lines strip "
+                      f"repr(host) from repr(variable), which is only a prefix for the variable's host component",
+                      filed[0].lineno)
+        if good:
+            r.ok(m, fn, f"every element of {im.FV} is filed once under {im.D}[{x}.get_host_component()]")
+    # emission loops visit everything
+    oc = strip_wrappers(im.outer_loop.iter)
+    o_ok = (is_method_call(oc, 'items') and norm(oc.func.value) == im.D) or norm(oc) == im.D or \
+           (is_method_call(oc, 'keys') and norm(oc.func.value) == im.D)
+    ic = strip_wrappers(im.inner_loop.iter)
+    if isinstance(ic, ast.Call) and norm(ic.func) == 'enumerate' and ic.args:
+        ic = strip_wrappers(ic.args[0])
+    i_ok = norm(ic) == im.L if im.L else norm(ic) == f"{im.D}[{im.H}]"
+    for ok_, lp, what in ((o_ok, im.outer_loop, 'host groups'), (i_ok, im.inner_loop, 'variables of a host')):
+        cons = f"for {norm(lp.target)} in {norm(lp.iter)}"
+        if ok_:
+            r.ok(m, fn, f"{cons}: visits all {what}")
+        else:
+            r.bad(m, fn, cons, f"the emission loop does not visit all {what}: a skipped watched variable is never "
+                               f"snapshotted or compared", lp.lineno)
+    # every path through the per-variable body appends one line to each line list
+    paths = Paths(max_iter=1).block(im.inner_loop.body)
+    counts = []
+    for events, outcome in paths:
+        r.evaluations += 1
+        conds = ' and '.join(f"{'' if ev[2] else 'not '}({norm(ev[1])})" for ev in events if ev[0] == 'branch') or 'always'
+        if outcome == 'raise':
+            continue
+        if outcome in ('break', 'return'):
+            r.bad(m, fn, f"emission path [{conds}]", "the per-variable loop is left early: the remaining watched variables "
+                  "get no snapshot and no comparison", im.inner_loop.lineno)
+            continue
+        counts.append((conds, _count_appends(events)))
+    lists = sorted({k for _, c in counts for k in c})
+    if len(lists) < 2:
+        raise AnalysisError(f"{fn}: per-variable emission appends to {lists}; expected a snapshot list and a comparison list")
+    for conds, c in counts:
+        wrong = [f"{k}: {c.get(k, 0)}" for k in lists if c.get(k, 0) != 1]
+        if wrong:
+            r.bad(m, fn, f"emission path [{conds}]",
+                  f"for a watched variable with [{conds}] the number of generated lines is {', '.join(wrong)} (expected one "
+                  f"snapshot and one comparison each): the variable is not watched", im.inner_loop.lineno)
+        else:
+            r.ok(m, fn, f"emission path [{conds}]: one line each to {', '.join(lists)}")
+
+
+def _check_recording(r, repo):
+    """GenDAGPass._process_value_constraints: every value-induced edge records the object that induces it under the
+    same (writer block, reader block) key -- the source of the watched set"""
+    m = repo.mod(GENDAG)
+    f = m.get_func('GenDAGPass._process_value_constraints')
+    fn = 'GenDAGPass._process_value_constraints'
+    stores = [n for n in walk_no_nested(f) if isinstance(n, ast.Assign) and any(
+        isinstance(t, ast.Attribute) and t.attr == 'constraint_objs' for t in n.targets) and isinstance(n.value, ast.Name)]
+    if len(stores) != 1:
+        raise AnalysisError(f"{fn}: cannot find where top._dag.constraint_objs is published")
+    CO = stores[0].value.id
+    edges = [n for n in walk_no_nested(f) if is_method_call(n, 'add') and isinstance(n.func.value, ast.Name)
+             and len(n.args) == 1 and isinstance(n.args[0], ast.Tuple) and len(n.args[0].elts) == 2
+             and _enclosing_for(n, f) is not None and n.func.value.id != CO]
+    # edges that merely copy an already recorded pair into the final set are not new edges
+    edges = [e for e in edges if not any(isinstance(t, ast.For) and norm(t.target) == norm(e.args[0])
+                                         for t in [_enclosing_for(e, f)])]
+    for e in edges:
+        st = _stmt_of(e)
+        key = norm(e.args[0])
+        recs = [x for x in _siblings(st) if isinstance(x, ast.Expr) and is_method_call(x.value, 'add')
+                and isinstance(x.value.func.value, ast.Subscript) and norm(x.value.func.value.value) == CO]
+        cons = f"{norm(e)} / {CO}[...]"
+        loops = []
+        q = parent(st)
+        while q is not None and q is not f:
+            if isinstance(q, ast.For):
+                loops.append(q)
+            q = parent(q)
+        keyvars = {x.id for lp in loops for x in ast.walk(lp.target) if isinstance(x, ast.Name)}
+        if not recs:
+            r.bad(m, fn, cons, f"the edge {key} is added without recording the inducing signal in {CO}[{key}]: an SCC closed "
+                               f"by this edge does not watch that signal and can return while it is still changing", e.lineno)
+        elif any(norm(x.value.func.value.slice) != key for x in recs):
+            r.bad(m, fn, cons, f"the inducing signal of edge {key} is recorded under "
+                               f"{[norm(x.value.func.value.slice) for x in recs]}: the schedulers look it up under the edge "
+                               f"itself and find nothing", e.lineno)
+        elif not all(len(x.value.args) == 1 and isinstance(x.value.args[0], ast.Name) and x.value.args[0].id in keyvars
+                     and any(isinstance(lp.iter, ast.Call) and norm(lp.iter.func).endswith('.items')
+                             and isinstance(lp.target, (ast.Tuple, ast.List))
+                             and norm(lp.target.elts[0]) == x.value.args[0].id for lp in loops) for x in recs):
+            r.bad(m, fn, cons, f"what is recorded for edge {key} is not the signal object the constraint was derived from",
+                  e.lineno)
+        else:
+            r.ok(m, fn, f"{norm(e)} with {norm(recs[0])}")
+
+
+def rule_watch(repo):
+    r = RuleResult('R-C11-watch',
+                   "the snapshotted set covers every variable that carries the cycle: union over all intra-SCC edges of "
+                   "constraint_objs, reduction keeps the variable or its top-level signal, every kept variable gets a "
+                   "snapshot that is a copy and a comparison against that same snapshot")
+    _check_recording(r, repo)
+    for im in impls(repo):
+        _check_collection(r, im)
+        _check_reduction(r, im)
+        _check_flow(r, im)
+        for g in im.gens():
+            if g.F is None:
+                continue
+            probs = g.probs('watch')
+            if not probs:
+                r.ok(im.mod, im.qual, f"{g.label}: each snapshot is clone()/deepcopy of the live signal and is compared "
+                                      f"with that signal")
+            for kind, c, msg in probs:
+                r.bad(im.mod, im.qual, f"{g.label}: {kind}: {c}", msg, getattr(g.emit.call, 'lineno', 0))
+            # every snapshot is compared, every comparison has its snapshot
+            snapped = {(v, t) for t, v, _ in g.snapshots}
+            lone = sorted(snapped - g.compared)
+            if lone:
+                r.bad(im.mod, im.qual, f"{g.label}: uncompared {lone}", f"snapshot(s) {lone} are never compared with the "
+                      f"live signal", getattr(g.emit.call, 'lineno', 0))
+    _floor(r, 70)
+    return r
+
+
+
+# ---------------------------------------------------------------------------
+# R-C11-once
+def emission_stmts(im):
+    im.emits()
+    b = im.builder
+    out = []
+    for n in walk_no_nested(im.root):
+        if isinstance(n, ast.Call) and isinstance(n.func, ast.Name) and \
+                (n.func.id in b.exec_names or n.func.id in b.emit_funcs):
+            st = _stmt_of(n)
+            if st not in out:
+                out.append(st)
+    if not out:
+        raise AnalysisError(f"{im.qual}: cannot locate the statement that creates the super-block")
+    return out
+
+
+def once_names(im):
+    out = set()
+    for f in {im.root, im.outer}:
+        for n in walk_no_nested(f):
+            if isinstance(n, ast.Assign) and is_method_call(n.value, 'get_all_update_once'):
+                out |= {t.id for t in n.targets if isinstance(t, ast.Name)}
+    return out
+
+
+def _raise_class_ok(im, rz):
+    e = rz.exc.func if isinstance(rz.exc, ast.Call) else rz.exc
+    return isinstance(e, ast.Name) and im.resolves_to_class(e.id, 'UpblkCyclicError', ERRORS)
+
+
+def _check_once(r, im, E0):
+    m, fn = im.mod, im.qual
+    onces = once_names(im)
+    if not onces:
+        r.bad(m, fn, 'get_all_update_once()', "the set of update_once blocks is never consulted: a cycle through an "
+              "update_once block is iterated instead of being rejected", E0.lineno)
+        return
+    prec = preceding_stmts(E0)
+    found = 0
+    for st in prec:
+        if isinstance(st, ast.For):
+            for rz in [n for n in walk_no_nested(st) if isinstance(n, ast.Raise)]:
+                gs = [g for g in guards_of(rz, stop=st) if g.kind in ('if', 'exit', 'assert')]
+                if not any(names_in(g.test) & onces for g in gs):
+                    continue
+                tgt = st.target.id if isinstance(st.target, ast.Name) else None
+                extra = []
+
+                def mk(mval):
+                    def leaf(e):
+                        if isinstance(e, ast.Compare) and len(e.ops) == 1 and isinstance(e.ops[0], (ast.In, ast.NotIn)) \
+                                and isinstance(e.left, ast.Name) and e.left.id == tgt \
+                                and isinstance(e.comparators[0], ast.Name) and e.comparators[0].id in onces:
+                            return mval if isinstance(e.ops[0], ast.In) else not mval
+                        if isinstance(e, (ast.BoolOp, ast.UnaryOp)):
+                            return NotImplemented
+                        extra.append(norm(e))
+                        return True
+                    return leaf
+                region = {mv: all(bool(Evaluator({}, leaf=mk(mv)).ev(g.test)) == g.polarity for g in gs)
+                          for mv in (False, True)}
+                r.evaluations += 2
+                cons = f"for {norm(st.target)} in {norm(st.iter)}: {' and '.join(norm(g.test) for g in gs)} -> raise"
+                found += 1
+                core = strip_wrappers(st.iter)
+                if extra:
+                    r.bad(m, fn, cons, f"the update_once rejection also depends on `{'`, `'.join(sorted(set(extra)))}`: some "
+                          f"cycles through an update_once block are accepted", rz.lineno)
+                elif not region[True] or region[False]:
+                    r.bad(m, fn, cons, "the rejection does not fire exactly when a block of the SCC is an update_once block "
+                          f"(fires for a once-block: {region[True]}, for an ordinary block: {region[False]})", rz.lineno)
+                elif not (isinstance(core, ast.Name) and (im.scc_name is None or core.id == im.scc_name)):
+                    r.bad(m, fn, cons, f"the rejection loop visits `{norm(st.iter)}`, not every block of the SCC", st.lineno)
+                elif not _raise_class_ok(im, rz):
+                    r.bad(m, fn, cons, "the rejection does not raise pymtl3.dsl.errors.UpblkCyclicError", rz.lineno)
+                else:
+                    r.ok(m, fn, cons + " (dominates block generation)")
+        elif isinstance(st, ast.If) and names_in(st.test) & onces and any(isinstance(n, ast.Raise) for n in walk_no_nested(st)):
+            t = st.test
+            neg = False
+            while isinstance(t, ast.UnaryOp) and isinstance(t.op, ast.Not):
+                t, neg = t.operand, not neg
+            shape = None
+            if isinstance(t, ast.Call) and norm(t.func) == 'any' and len(t.args) == 1 and \
+                    isinstance(t.args[0], (ast.GeneratorExp, ast.ListComp)) and len(t.args[0].generators) == 1:
+                ge = t.args[0]
+                gen = ge.generators[0]
+                e = ge.elt
+                if isinstance(e, ast.Compare) and len(e.ops) == 1 and isinstance(e.ops[0], ast.In) and \
+                        norm(e.left) == norm(gen.target) and norm(e.comparators[0]) in onces and not gen.ifs \
+                        and isinstance(strip_wrappers(gen.iter), ast.Name):
+                    shape = not neg
+            elif isinstance(t, ast.BinOp) and isinstance(t.op, ast.BitAnd) and \
+                    ({norm(t.left), norm(t.right)} & onces) and isinstance(t.left, ast.Name) and isinstance(t.right, ast.Name):
+                shape = not neg
+            elif is_method_call(t, 'intersection') and ({norm(t.func.value)} | {norm(a) for a in t.args}) & onces:
+                shape = not neg
+            elif is_method_call(t, 'isdisjoint') and ({norm(t.func.value)} | {norm(a) for a in t.args}) & onces:
+                shape = neg
+            if shape is None and isinstance(t, ast.Call) and norm(t.func) == 'all' and len(t.args) == 1 and \
+                    isinstance(t.args[0], (ast.GeneratorExp, ast.ListComp)) and len(t.args[0].generators) == 1 and \
+                    isinstance(t.args[0].elt, ast.Compare) and norm(t.args[0].elt.comparators[0]) in onces:
+                # rejection only when EVERY block of the SCC is an update_once block: mixed cycles are accepted
+                found += 1
+                r.bad(m, fn, f"if {norm(st.test)} -> raise",
+                      "the rejection fires only when all blocks of the SCC are update_once blocks: a cycle mixing @update_once and "
+                      "@update blocks is evaluated repeatedly (the update_once block runs several times per cycle) instead of "
+                      "raising UpblkCyclicError", st.lineno)
+                continue
+            if shape is None:
+                raise AnalysisError(f"{fn}: update_once test `{norm(st.test)}` has a shape the rule does not understand")
+            blk = st.body if shape else st.orelse
+            cons = f"if {norm(st.test)} -> raise"
+            found += 1
+            rzs = [n for b in blk for n in walk_no_nested(b) if isinstance(n, ast.Raise)]
+            if not (blk and always_exits(blk) and exit_kind(blk) == {'raise'} and all(_raise_class_ok(im, z) for z in rzs)):
+                r.bad(m, fn, cons, "an SCC containing an update_once block is not rejected with UpblkCyclicError", st.lineno)
+            else:
+                r.ok(m, fn, cons + " (dominates block generation)")
+    if not found:
+        later = [n for n in walk_no_nested(im.root) if isinstance(n, ast.Raise)
+                 and any(names_in(g.test) & onces for g in guards_of(n))]
+        r.bad(m, fn, f"update_once rejection before {norm(E0)[:50]}",
+              "no rejection of update_once blocks dominates the generation of the super-block" +
+              (" (a rejection exists but does not run before it on every path)" if later else "") +
+              ": a cycle through an update_once block is evaluated repeatedly instead of raising UpblkCyclicError",
+              E0.lineno)
+
+
+def _check_novar(r, im, E0):
+    m, fn, VARS = im.mod, im.qual, im.VARS
+    gs = [g for g in guards_of(E0) if g.kind == 'exit' and mentions(g.test, VARS)]
+    if not gs:
+        r.bad(m, fn, f"empty-{VARS} rejection before {norm(E0)[:50]}",
+              f"no test of `{VARS}` being empty dominates the generation of the super-block: an SCC whose edges carry no "
+              f"variable yields a loop that compares nothing and returns after one pass instead of raising UpblkCyclicError",
+              E0.lineno)
+        return
+    for g in gs:
+        cons = f"if {norm(g.node.test)} -> {'/'.join(sorted(exit_kind(g.exit_block)))}"
+        region = {}
+        for n in (0, 1, 2, 5):
+            def leaf(e, n=n):
+                if isinstance(e, ast.Call) and norm(e.func) == 'len' and len(e.args) == 1 and norm(e.args[0]) == VARS:
+                    return n
+                if isinstance(e, ast.Name) and e.id == VARS:
+                    return n
+                return NotImplemented
+            region[n] = bool(Evaluator({}, arith=True, leaf=leaf).ev(g.test)) != g.polarity
+            r.evaluations += 1
+        rzs = [n for b in g.exit_block for n in walk_no_nested(b) if isinstance(n, ast.Raise)]
+        grown = [n for n in walk_no_nested(im.root)
+                 if (isinstance(n, ast.Call) and isinstance(n.func, ast.Attribute) and norm(n.func.value) == VARS
+                     and n.func.attr in ('update', 'add')) or
+                 (isinstance(n, ast.AugAssign) and norm(n.target) == VARS)]
+        before = preceding_stmts(g.node)
+        if not region[0]:
+            r.bad(m, fn, cons, f"the test does not reject an empty `{VARS}`", g.node.lineno)
+        elif any(region[n] for n in (1, 2, 5)):
+            r.bad(m, fn, cons, f"the test also rejects SCCs whose edges do carry variables "
+                               f"(|{VARS}| in {[n for n in (1, 2, 5) if region[n]]}): a false loop is reported as an error",
+                  g.node.lineno)
+        elif exit_kind(g.exit_block) != {'raise'} or not all(_raise_class_ok(im, z) for z in rzs):
+            r.bad(m, fn, cons, "an SCC without value-carrying variables is not rejected with UpblkCyclicError", g.node.lineno)
+        elif not all(any(inside(x, b) for b in before) for x in grown):
+            r.bad(m, fn, cons, f"`{VARS}` is tested before it has been filled", g.node.lineno)
+        else:
+            r.ok(m, fn, cons + " exactly when the SCC carries no variable (dominates block generation)")
+
+
+def rule_once(repo):
+    r = RuleResult('R-C11-once',
+                   "an SCC that contains an update_once block, or whose edges carry no variable, is rejected with "
+                   "UpblkCyclicError before the super-block is generated (both implementations)")
+    for im in impls(repo):
+        im.locate()
+        if not im._collected:
+            _check_collection(RuleResult('scratch', ''), im)
+        for E0 in emission_stmts(im):
+            _check_once(r, im, E0)
+            _check_novar(r, im, E0)
+    _floor(r, 4)
+    return r
+
+
+
+# ---------------------------------------------------------------------------
+# R-C11-cover
+def _list_of_key(k):
+    """('whole', name) / ('last', name) / None for the container key of a block element"""
+    if isinstance(k, tuple) and k and k[0] == 'free':
+        return ('whole', k[1])
+    if isinstance(k, tuple) and k and k[0] == 'sub' and isinstance(k[1], tuple) and k[1][0] == 'free' \
+            and k[2] == ('const', '-1'):
+        return ('last', k[1][1])
+    return None
+
+
+def _check_tick_function(r, im, fkey):
+    """SimpleTickPass.gen_tick_function(schedule) returns a function that calls every element once, in order"""
+    if not (fkey[0] == 'attr' and fkey[1][0] == 'free'):
+        raise AnalysisError(f"{im.qual}: block runner {fkey!r} cannot be resolved")
+    res = im.repo.resolve(im.mod, fkey[1][1])
+    if not res or not isinstance(res[1], ast.ClassDef):
+        raise AnalysisError(f"{im.qual}: cannot resolve {fkey[1][1]}")
+    tm, cls = res
+    f = tm.methods(cls.name).get(fkey[2])
+    if f is None:
+        raise AnalysisError(f"anchor vanished: {cls.name}.{fkey[2]}")
+    params = [a.arg for a in f.args.args]
+    static = any(norm(d) == 'staticmethod' for d in f.decorator_list)
+    p = params[0] if static else (params[1] if len(params) > 1 else None)
+    inner = [n for n in f.body if isinstance(n, ast.FunctionDef)]
+    rets = [n for n in walk_no_nested(f) if isinstance(n, ast.Return)]
+    good = False
+    if p and len(inner) == 1 and len(rets) == 1 and norm(rets[0].value) == inner[0].name:
+        loops = [n for n in inner[0].body if isinstance(n, ast.For)]
+        if len(loops) == 1 and norm(strip_wrappers(loops[0].iter)) == p and isinstance(loops[0].target, ast.Name) \
+                and strip_wrappers(loops[0].iter) is loops[0].iter:
+            t = loops[0].target.id
+            good = any(isinstance(s, ast.Expr) and isinstance(s.value, ast.Call) and norm(s.value.func) == t
+                       and not s.value.args for s in loops[0].body) and \
+                not any(isinstance(n, (ast.Break, ast.Continue, ast.Return)) for n in ast.walk(loops[0]))
+    cons = f"{cls.name}.{fkey[2]}({p}): for blk in {p}: blk()"
+    if good:
+        r.ok(tm, f"{cls.name}.{fkey[2]}", cons)
+    else:
+        r.bad(tm, f"{cls.name}.{fkey[2]}", cons, "the tick function used inside the SCC super-block does not call every "
+              "block of the list it is given exactly once per pass", f.lineno)
+
+
+def _check_emitted_blocks(r, im):
+    """per variant: what the generated loop calls is exactly the list of blocks handed over, element by element"""
+    lists = {}
+    tick_checked = False
+    for g in im.gens():
+        if g.F is None or not isinstance(g.emit.globals, dict):
+            continue
+        glob = g.emit.globals
+        per_list = {}
+        bad = []
+        for c in g.calls:
+            v = glob.get(c)
+            k = v.key if isinstance(v, Sym) else None
+            if k and k[0] == 'call' and isinstance(k[1], tuple) and k[1][0] == 'attr' and k[1][2] == 'gen_tick_function' \
+                    and len(k[2]) == 1:
+                lk = _list_of_key(k[2][0])
+                if lk is None or lk[0] != 'whole':
+                    bad.append(f"`{c}()` runs {k[2][0]!r}, not the complete BFS schedule of the SCC")
+                else:
+                    per_list.setdefault(lk, set()).add('all')
+                    if not tick_checked:
+                        _check_tick_function(r, im, k[1])
+                        tick_checked = True
+            elif k and k[0] == 'elem':
+                lk = _list_of_key(k[1])
+                if lk is None:
+                    bad.append(f"`{c}()` is bound to an element of {k[1]!r}, which is not the complete list of blocks")
+                else:
+                    per_list.setdefault(lk, set()).add(k[2])
+            elif k and k[0] == 'call' and isinstance(k[1], tuple) and k[1][0] == 'attr' and k[1][2] == 'compile_meta_block' \
+                    and len(k[2]) == 1 and k[2][0][0] == 'elem':
+                lk = _list_of_key(k[2][0][1])
+                if lk is None or lk[0] != 'whole':
+                    bad.append(f"`{c}()` is a meta block of {k[2][0][1]!r}, which is not the complete partition")
+                else:
+                    per_list.setdefault(('parts', lk[1]), set()).add(k[2][0][2])
+            else:
+                bad.append(f"`{c}()` is bound to {v!r}: not a block of the SCC schedule")
+        # globals entries that are blocks but are never called
+        for name, v in glob.items():
+            k = v.key if isinstance(v, Sym) else None
+            is_blk = bool(k) and (k[0] == 'elem' or (k[0] == 'call' and isinstance(k[1], tuple) and k[1][0] == 'attr'
+                                                     and k[1][2] in ('compile_meta_block', 'gen_tick_function')))
+            if is_blk and name not in g.calls:
+                bad.append(f"block `{name}` is handed to the generated code but the loop never calls it")
+        for lk, ks in per_list.items():
+            if 'all' in ks:
+                continue
+            n = len(ks)
+            if ks != set(range(n)):
+                bad.append(f"elements {sorted(ks)} of {lk[1]} are called; the unrolled loop produced {n} blocks starting at 0")
+            if lk[0] == 'last':
+                single = any(t and c.replace(' ', '') in (f"len({lk[1]})==1", f"1==len({lk[1]})") for c, t in g.emit.choices)
+                if not single:
+                    bad.append(f"only the last part of {lk[1]} is run although {lk[1]} may have several parts")
+        for lk in per_list:
+            lists.setdefault(lk, 0)
+            lists[lk] += 1
+        cons = f"{g.label}: calls cover " + ', '.join(f"{a} of {b}" for a, b in sorted(per_list)) if per_list else \
+            f"{g.label}: no block list"
+        if not per_list and not bad:
+            bad.append("the generated loop calls no block of the SCC")
+        if bad:
+            for b in bad:
+                r.bad(im.mod, im.qual, f"{g.label}: {b[:70]}", b + ": a block of the cycle is not re-evaluated in the loop, "
+                      "so the returned state is not a fixed point of the whole SCC", getattr(g.emit.call, 'lineno', 0))
+        else:
+            r.ok(im.mod, im.qual, cons)
+    # the loops that produced the block elements visit the whole list
+    for lp in im.builder.symloops.values():
+        if not isinstance(lp, ast.For):
+            continue
+        core = strip_wrappers(lp.iter)
+        if isinstance(core, ast.Call) and norm(core.func) == 'enumerate' and core.args:
+            core = strip_wrappers(core.args[0])
+        names = {b for a, b in lists}
+        if names_in(core) & names and not isinstance(core, ast.Name) and \
+                not (isinstance(core, ast.Subscript) and norm(core.slice) == '-1'):
+            r.bad(im.mod, im.qual, f"for {norm(lp.target)} in {norm(lp.iter)}", "the loop that emits the block calls does not "
+                  "visit the whole block list: a block of the cycle is never re-evaluated", lp.lineno)
+    return lists
+
+
+def _check_bfs(r, im, LIST):
+    """LIST is filled by a BFS over the SCC: every popped vertex is scheduled, every unvisited successor inside the
+    SCC is pushed and marked"""
+    m, fn, root = im.mod, im.qual, im.root
+    whiles = [w for w in walk_no_nested(root) if isinstance(w, ast.While) and
+              any(is_method_call(c, 'append') and norm(c.func.value) == LIST for s in w.body for c in walk_no_nested(s))]
+    fills = [c for c in walk_no_nested(root) if isinstance(c, ast.Call) and isinstance(c.func, ast.Attribute)
+             and norm(c.func.value) == LIST and c.func.attr in ('append', 'extend', 'insert')]
+    if not fills:
+        r.bad(m, fn, f"{LIST}.append(...)", f"the block list {LIST} handed to the super-block is never filled: the generated "
+              f"loop runs no block of the cycle and returns the stale values", root.lineno)
+        return None, None
+    if len(whiles) != 1 or any(not inside(c, whiles[0]) for c in fills):
+        raise AnalysisError(f"{fn}: {LIST} is not filled by a single worklist loop ({len(whiles)} loops, {len(fills)} fills)")
+    w = whiles[0]
+    pops = [s for s in w.body if isinstance(s, ast.Assign) and len(s.targets) == 1 and isinstance(s.targets[0], ast.Name)
+            and isinstance(s.value, ast.Call) and isinstance(s.value.func, ast.Attribute)
+            and s.value.func.attr in ('popleft', 'pop') and isinstance(s.value.func.value, ast.Name)]
+    if len(pops) != 1:
+        raise AnalysisError(f"{fn}: worklist loop has {len(pops)} unconditional pops")
+    Q, u = pops[0].value.func.value.id, pops[0].targets[0].id
+    cons = f"while {norm(w.test)}: {norm(pops[0])}"
+    if names_in(w.test) != {Q} and names_in(w.test) != {Q, 'len'}:
+        r.bad(m, fn, cons, f"the worklist loop stops on `{norm(w.test)}`, not when the worklist is empty: reachable blocks "
+                           f"of the SCC may be left unscheduled", w.lineno)
+    sched = [s for s in w.body if isinstance(s, ast.Expr) and is_method_call(s.value, 'append')
+             and norm(s.value.func.value) == LIST and [norm(a) for a in s.value.args] == [u]]
+    if len(sched) == 1 and w.body.index(sched[0]) > w.body.index(pops[0]):
+        r.ok(m, fn, f"{cons}; {norm(sched[0])}: every popped block is scheduled")
+    else:
+        r.bad(m, fn, f"{cons}; {LIST}.append({u})", f"a block taken from the worklist is scheduled {len(sched)} times "
+              f"unconditionally (expected once): it is {'missing from' if not sched else 'duplicated in'} the super-block",
+              w.lineno)
+    succ = [s for s in w.body if isinstance(s, ast.For) and isinstance(strip_wrappers(s.iter), ast.Subscript)
+            and norm(strip_wrappers(s.iter).slice) == u and isinstance(s.target, ast.Name)]
+    if len(succ) != 1:
+        raise AnalysisError(f"{fn}: cannot locate the successor loop of the BFS")
+    sl = succ[0]
+    v = sl.target.id
+    ADJ = norm(strip_wrappers(sl.iter).value)
+    dirs = adjacency_dirs(im)
+    if ADJ not in dirs:
+        r.bad(m, fn, f"for {v} in {norm(sl.iter)}", f"the BFS expands along `{ADJ}`, which is not an adjacency map built from "
+              f"all scheduling constraints", sl.lineno)
+    elif strip_wrappers(sl.iter) is not sl.iter and not isinstance(sl.iter, ast.Call):
+        r.bad(m, fn, f"for {v} in {norm(sl.iter)}", "the BFS does not visit every neighbour", sl.lineno)
+    else:
+        r.ok(m, fn, f"for {v} in {norm(sl.iter)}: expands along every constraint edge ({dirs[ADJ]} map)")
+    pushes = [c for s in sl.body for c in walk_no_nested(s) if isinstance(c, ast.Call) and isinstance(c.func, ast.Attribute)
+              and norm(c.func.value) == Q and c.func.attr in ('append', 'appendleft') and [norm(a) for a in c.args] == [v]]
+    if len(pushes) != 1:
+        r.bad(m, fn, f"{Q}.append({v})", f"a neighbour is pushed {len(pushes)} times in the successor loop: blocks of the SCC "
+              f"{'are never reached' if not pushes else 'are handled inconsistently'}", sl.lineno)
+        return Q, w
+    push = _stmt_of(pushes[0])
+    gs = [g for g in guards_of(push, stop=sl) if g.kind in ('if', 'exit', 'assert')]
+    sets, extra = set(), []
+
+    def mk(a, b, VIS):
+        def leaf(e):
+            if isinstance(e, ast.Compare) and len(e.ops) == 1 and isinstance(e.ops[0], (ast.In, ast.NotIn)) \
+                    and norm(e.left) == v and isinstance(e.comparators[0], ast.Name):
+                nm = e.comparators[0].id
+                sets.add(nm)
+                val = a if nm == im.scc_name else b
+                return val if isinstance(e.ops[0], ast.In) else not val
+            if isinstance(e, (ast.BoolOp, ast.UnaryOp)):
+                return NotImplemented
+            extra.append(norm(e))
+            return True
+        return leaf
+    region = {(a, b): all(bool(Evaluator({}, leaf=mk(a, b, None)).ev(g.test)) == g.polarity for g in gs)
+              for a in (False, True) for b in (False, True)}
+    r.evaluations += 4
+    vis = sorted(sets - {im.scc_name})
+    cons = f"{norm(push)} if {' and '.join(norm(g.test) for g in gs) or 'always'}"
+    want = {(a, b): (a and not b) for a in (False, True) for b in (False, True)}
+    marks = [c for s in sl.body for c in walk_no_nested(s) if vis and is_method_call(c, 'add')
+             and norm(c.func.value) == vis[0] and [norm(a) for a in c.args] == [v]]
+    same_block = bool(marks) and any(x is _stmt_of(marks[0]) for x in _siblings(push))
+    if extra or len(vis) != 1:
+        r.bad(m, fn, cons, f"the push of a neighbour depends on {extra or sorted(sets)}; expected exactly `in the SCC and not "
+                           f"visited`", push.lineno)
+    elif region != want:
+        wrong = [f"inSCC={a},visited={b}: pushed={region[(a, b)]}" for (a, b) in region if region[(a, b)] != want[(a, b)]]
+        r.bad(m, fn, cons, f"a neighbour must be pushed exactly when it is in the SCC and not yet visited ({'; '.join(wrong)}): "
+                           f"blocks of the cycle are left out of (or foreign blocks dragged into) the super-block", push.lineno)
+    elif not same_block:
+        r.bad(m, fn, cons, f"a pushed neighbour is not marked in `{vis[0]}` together with the push: in a cycle the worklist "
+                           f"never empties", push.lineno)
+    else:
+        r.ok(m, fn, cons + f"; {norm(_stmt_of(marks[0]))}: region is exactly inSCC and not visited")
+    return Q, w
+
+
+def _siblings(st):
+    p = parent(st)
+    for fld in ('body', 'orelse', 'finalbody'):
+        blk = getattr(p, fld, None)
+        if isinstance(blk, list) and any(x is st for x in blk):
+            return blk
+    return []
+
+
+def adjacency_dirs(im):
+    """name -> 'successor' / 'predecessor' for maps filled as M[a].append(b) in the loop over all_constraints"""
+    c = getattr(im, '_dirs', None)
+    if c is not None:
+        return c
+    dirs = {}
+    for lp in [n for n in walk_no_nested(im.outer) if isinstance(n, ast.For)]:
+        core = strip_wrappers(lp.iter)
+        ab = _pair_names(lp.target)
+        if not (isinstance(core, ast.Attribute) and core.attr == 'all_constraints' and ab):
+            continue
+        for cnode in [c for s in lp.body for c in walk_no_nested(s)]:
+            if is_method_call(cnode, 'append') and isinstance(cnode.func.value, ast.Subscript) \
+                    and isinstance(cnode.func.value.value, ast.Name) and len(cnode.args) == 1:
+                k, e = norm(cnode.func.value.slice), norm(cnode.args[0])
+                if [k, e] == ab:
+                    dirs[cnode.func.value.value.id] = 'successor'
+                elif [e, k] == ab:
+                    dirs[cnode.func.value.value.id] = 'predecessor'
+    if not dirs:
+        raise AnalysisError(f"{im.qual}: cannot find the adjacency maps built from all_constraints")
+    im._dirs = dirs
+    return dirs
+
+
+def _kosaraju_orientation(im):
+    """(first-argument name, second-result name) of the kosaraju_scc call in the enclosing function, after checking
+    that the condensation graph it returns follows the orientation of its first parameter"""
+    calls = [n for n in walk_no_nested(im.outer) if isinstance(n, ast.Assign) and isinstance(n.value, ast.Call)
+             and isinstance(n.value.func, ast.Name) and isinstance(n.targets[0], (ast.Tuple, ast.List))
+             and len(n.targets[0].elts) == 2 and len(n.value.args) == 2
+             and isinstance(im.repo.resolve(im.mod, n.value.func.id) or (None, None), tuple)
+             and isinstance((im.repo.resolve(im.mod, n.value.func.id) or (None, None))[1], ast.FunctionDef)
+             and any(isinstance(x, ast.Return) and isinstance(x.value, ast.Tuple)
+                     for x in ast.walk((im.repo.resolve(im.mod, n.value.func.id))[1]))]
+    calls = [c for c in calls if 'scc' in c.value.func.id.lower()]
+    if len(calls) != 1:
+        raise AnalysisError(f"{im.qual}: cannot locate the SCC computation call")
+    c = calls[0]
+    km, kf = im.repo.resolve(im.mod, c.value.func.id)
+    p0 = kf.args.args[0].arg
+    ret = [x for x in walk_no_nested(kf) if isinstance(x, ast.Return)][-1].value
+    gn = norm(ret.elts[1])
+    adds = [x for x in walk_no_nested(kf) if is_method_call(x, 'add') and isinstance(x.func.value, ast.Subscript)
+            and norm(x.func.value.value) == gn and len(x.args) == 1]
+    if not adds:
+        raise AnalysisError(f"kosaraju_scc: cannot find where the condensation graph {gn} gets its edges")
+    from sa.astutil import reaching_value
+    for a in adds:
+        outer_for = inner_for = None
+        q = parent(a)
+        while q is not None and q is not kf:
+            if isinstance(q, ast.For):
+                if inner_for is None:
+                    inner_for = q
+                else:
+                    outer_for = q
+                    break
+            q = parent(q)
+        good = False
+        if outer_for is not None and is_method_call(outer_for.iter, 'items') and norm(outer_for.iter.func.value) == p0:
+            ku = _pair_names(outer_for.target)
+            kv = inner_for.target.id if isinstance(inner_for.target, ast.Name) else None
+            src, dst = a.func.value.slice, a.args[0]
+            rs = reaching_value(src.id, a) if isinstance(src, ast.Name) else src
+            rd = reaching_value(dst.id, a) if isinstance(dst, ast.Name) else dst
+            if ku and kv and isinstance(rs, ast.Subscript) and isinstance(rd, ast.Subscript) \
+                    and norm(rs.slice) == ku[0] and norm(rd.slice) == kv and norm(inner_for.iter) == ku[1]:
+                good = True
+        if not good:
+            raise AnalysisError("kosaraju_scc: condensation edges are not built as G_new[scc(u)].add(scc(v)) for u -> v "
+                                "of the first argument")
+    return norm(c.value.args[0]), norm(c.targets[0].elts[1]), norm(c.value.args[1])
+
+
+def _pred_direction(im, SP):
+    """direction ('predecessor'/'successor') of the SCC recorded in SP[...] relative to the graph maps"""
+    dirs = adjacency_dirs(im)
+    a0, gn, a1 = _kosaraju_orientation(im)
+    if a0 not in dirs:
+        raise AnalysisError(f"{im.qual}: first argument {a0} of the SCC computation is not an adjacency map")
+    stores = [n for n in ast.walk(im.outer) if isinstance(n, ast.Assign) and len(n.targets) == 1
+              and isinstance(n.targets[0], ast.Subscript) and norm(n.targets[0].value) == SP]
+    if not stores:
+        raise AnalysisError(f"{im.qual}: {SP} is never filled")
+    rel = None
+    for st in stores:
+        if isinstance(st.value, ast.Constant) and st.value.value is None:
+            continue
+        key, val = norm(st.targets[0].slice), norm(st.value)
+        lp = parent(st)
+        while lp is not None and not (isinstance(lp, ast.For) and norm(lp.target) == key):
+            lp = parent(lp)
+        if lp is None or not (isinstance(lp.iter, ast.Subscript) and norm(lp.iter.value) == gn and norm(lp.iter.slice) == val):
+            raise AnalysisError(f"{im.qual}: `{norm(st)}` is not recorded along an edge of the condensation graph {gn}")
+        rel = 'same'
+    if rel is None:
+        raise AnalysisError(f"{im.qual}: {SP} never records a neighbouring SCC")
+    # SP[v] = u with v in G_new[u]: u precedes v in the orientation of the first argument
+    return 'predecessor' if dirs[a0] == 'successor' else 'successor', dirs, (a0, a1)
+
+
+def _check_seeds(r, im, Q, w):
+    from sa.astutil import reaching_value
+    m, fn = im.mod, im.qual
+    blk = _siblings(w)
+    idx = [i for i, x in enumerate(blk) if x is w][0]
+    inits = [i for i in range(idx) if isinstance(blk[i], ast.Assign) and any(norm(t) == Q for t in blk[i].targets)]
+    if not inits:
+        raise AnalysisError(f"{fn}: worklist {Q} is not initialised next to the BFS loop")
+    between = blk[inits[-1] + 1: idx]
+
+    def is_push(c):
+        return isinstance(c, ast.Call) and isinstance(c.func, ast.Attribute) and norm(c.func.value) == Q \
+            and c.func.attr in ('append', 'appendleft', 'extend')
+
+    def must(stmts):
+        for s in stmts:
+            if isinstance(s, ast.Expr) and is_push(s.value):
+                return True
+            if isinstance(s, (ast.For, ast.While)) and any(is_push(c) for c in walk_no_nested(s)):
+                return True
+            if isinstance(s, ast.If) and s.orelse and must(s.body) and must(s.orelse):
+                return True
+        return False
+    init_v = blk[inits[-1]].value
+    seeded_init = isinstance(init_v, ast.Call) and bool(init_v.args) or (isinstance(init_v, (ast.List, ast.Tuple)) and init_v.elts)
+    cons = f"seeds of {Q} before `while {norm(w.test)}`"
+    if not seeded_init and not must(between):
+        r.bad(m, fn, cons, "on some path the BFS starts from an empty worklist: the super-block is generated with no block "
+              "at all and returns the stale values after one trivial pass", w.lineno)
+    else:
+        r.ok(m, fn, cons + ": every path pushes a start block")
+    pushes = [c for s in between for c in walk_no_nested(s) if is_push(c)]
+    for c in pushes:
+        st = _stmt_of(c)
+        e = c.args[0] if c.args else None
+        pc = f"{norm(c)}"
+        # which loop binds the pushed name
+        member = False
+        bind = None
+        if isinstance(e, ast.Name):
+            q = parent(st)
+            while q is not None and q is not im.root:
+                if isinstance(q, ast.For) and isinstance(q.target, ast.Name) and q.target.id == e.id:
+                    bind = q
+                    break
+                q = parent(q)
+            if bind is not None:
+                member = norm(strip_wrappers(bind.iter)) == im.scc_name
+        elif isinstance(e, ast.Call) and norm(e.func) in ('max', 'min', 'next') and e.args:
+            a0 = e.args[0]
+            if isinstance(a0, ast.Call) and norm(a0.func) == 'iter' and a0.args:
+                a0 = a0.args[0]
+            src = reaching_value(a0.id, st) if isinstance(a0, ast.Name) and a0.id != im.scc_name else a0
+            if isinstance(src, ast.Name) and src.id == im.scc_name:
+                member = True
+            elif isinstance(src, ast.DictComp) and len(src.generators) == 1 and not src.generators[0].ifs \
+                    and norm(strip_wrappers(src.generators[0].iter)) == im.scc_name \
+                    and norm(src.key) == norm(src.generators[0].target):
+                member = True
+        if not member:
+            r.bad(m, fn, pc, f"the BFS is seeded with `{norm(e)}`, which is not taken from the blocks of the SCC "
+                             f"({im.scc_name})", c.lineno)
+            continue
+        gs = [g for g in guards_of(st, stop=bind) if g.kind in ('if', 'exit', 'assert')] if bind is not None else []
+        if not gs:
+            r.ok(m, fn, pc + ": an arbitrary block of the SCC")
+            continue
+        # guarded seed: `for v in M[x]: if v in PRED: push x` -- M must point towards the SCC recorded in scc_pred
+        inner = parent(st)
+        while inner is not None and inner is not bind and not isinstance(inner, ast.For):
+            inner = parent(inner)
+        test_ok = len(gs) == 1 and gs[0].polarity is True and isinstance(gs[0].test, ast.Compare) \
+            and len(gs[0].test.ops) == 1 and isinstance(gs[0].test.ops[0], ast.In) and isinstance(inner, ast.For) \
+            and inner is not bind and norm(gs[0].test.left) == norm(inner.target) \
+            and isinstance(gs[0].test.comparators[0], ast.Name) \
+            and isinstance(strip_wrappers(inner.iter), ast.Subscript) and norm(strip_wrappers(inner.iter).slice) == e.id
+        if not test_ok:
+            raise AnalysisError(f"{fn}: guarded BFS seed `{norm(st)}` has a shape the rule does not understand")
+        PRED = gs[0].test.comparators[0].id
+        pv = reaching_value(PRED, st)
+        core = pv
+        while isinstance(core, ast.Call) and isinstance(core.func, ast.Name) and core.func.id in WRAPPERS and core.args:
+            core = core.args[0]
+        if not (isinstance(core, ast.Subscript) and isinstance(core.slice, ast.Subscript)
+                and isinstance(core.slice.value, ast.Name)):
+            raise AnalysisError(f"{fn}: cannot resolve the neighbouring SCC `{PRED}`")
+        SP = core.slice.value.id
+        want, dirs, _ = _pred_direction(im, SP)
+        M = norm(strip_wrappers(inner.iter).value)
+        cons2 = f"for {norm(inner.target)} in {norm(inner.iter)}: if {norm(gs[0].test)}: {pc}"
+        if M not in dirs:
+            r.bad(m, fn, cons2, f"`{M}` is not an adjacency map built from the scheduling constraints", inner.lineno)
+        elif dirs[M] != want:
+            r.bad(m, fn, cons2, f"`{PRED}` is the {want} SCC recorded in {SP}, but its blocks are searched in the "
+                                f"{dirs[M]} map `{M}`: no block is ever found, the worklist stays empty and the super-block "
+                                f"runs no block of the cycle", inner.lineno)
+        else:
+            r.ok(m, fn, cons2 + f" ({want} SCC searched in the {dirs[M]} map)")
+
+
+def _check_partition(r, im, LIST, P):
+    """Mamba trace breaking inside an SCC: the parts stored in P contain every block of LIST exactly once"""
+    m, fn, root = im.mod, im.qual, im.root
+    loops = []
+    for lp in [n for n in walk_no_nested(root) if isinstance(n, ast.For)]:
+        core = strip_wrappers(lp.iter)
+        enum = isinstance(core, ast.Call) and norm(core.func) == 'enumerate' and core.args
+        if enum:
+            core = strip_wrappers(core.args[0])
+        if mentions(core, LIST) and any(is_method_call(c, 'append') and norm(c.func.value) == P
+                                        for s in lp.body for c in walk_no_nested(s)):
+            loops.append((lp, core, enum))
+    if len(loops) != 1:
+        raise AnalysisError(f"{fn}: cannot locate the loop that splits {LIST} into {P} ({len(loops)})")
+    lp, core, enum = loops[0]
+    if not isinstance(core, ast.Name):
+        r.bad(m, fn, f"for {norm(lp.target)} in {norm(lp.iter)}", f"the trace-breaking loop does not visit all of {LIST}",
+              lp.lineno)
+        return
+    names = _pair_names(lp.target) if enum else None
+    blk = names[1] if names else (lp.target.id if isinstance(lp.target, ast.Name) else None)
+    if blk is None:
+        raise AnalysisError(f"{fn}: trace-breaking loop target {norm(lp.target)}")
+    curs = {norm(c.args[0]) for s in lp.body for c in walk_no_nested(s)
+            if is_method_call(c, 'append') and norm(c.func.value) == P and len(c.args) == 1}
+    if len(curs) != 1:
+        raise AnalysisError(f"{fn}: parts appended to {P}: {sorted(curs)}")
+    CUR = curs.pop()
+    n_ok = 0
+    for events, outcome in Paths(max_iter=1).block(lp.body):
+        r.evaluations += 1
+        conds = ' and '.join(f"{'' if ev[2] else 'not '}({norm(ev[1])})" for ev in events if ev[0] == 'branch') or 'always'
+        if outcome == 'raise':
+            continue
+        cur, fresh, stored, placed, lost = 0, 0, set(), [], False
+        for ev in events:
+            if ev[0] != 'stmt':
+                continue
+            st = ev[1]
+            if isinstance(st, ast.Expr) and is_method_call(st.value, 'append') and len(st.value.args) == 1:
+                rcv, a = norm(st.value.func.value), norm(st.value.args[0])
+                if rcv == CUR and a == blk:
+                    placed.append(cur)
+                elif rcv == P and a == CUR:
+                    stored.add(cur)
+            elif isinstance(st, ast.Assign):
+                pairs = []
+                for t in st.targets:
+                    if isinstance(t, (ast.Tuple, ast.List)) and isinstance(st.value, (ast.Tuple, ast.List)) \
+                            and len(t.elts) == len(st.value.elts):
+                        pairs += list(zip(t.elts, st.value.elts))
+                    else:
+                        pairs.append((t, st.value))
+                for t, val in pairs:
+                    if norm(t) == CUR:
+                        if cur not in stored:
+                            lost = True
+                        fresh += 1
+                        cur = fresh
+                        if isinstance(val, (ast.List, ast.Tuple)):
+                            placed += [cur for x in val.elts if norm(x) == blk]
+                        elif not (isinstance(val, ast.Call) and norm(val.func) == 'list' and not val.args):
+                            lost = True
+            elif isinstance(st, ast.AugAssign) and norm(st.target) == CUR and isinstance(st.value, (ast.List, ast.Tuple)):
+                placed += [cur for x in st.value.elts if norm(x) == blk]
+        good = outcome in ('fall', 'continue') and not lost and len(placed) == 1 and (placed[0] in stored or placed[0] == cur)
+        if good:
+            n_ok += 1
+            r.ok(m, fn, f"trace-breaking path [{conds}]: block is in exactly one part")
+        else:
+            why = "the loop is left early" if outcome not in ('fall', 'continue') else \
+                "the current part is replaced before it was stored" if lost else \
+                f"the block is put into {len(placed)} parts" if len(placed) != 1 else "the part holding the block is dropped"
+            r.bad(m, fn, f"trace-breaking path [{conds}]", f"{why}: a block of the cycle is lost from (or duplicated in) the "
+                  f"super-block", lp.lineno)
+    # tail flush
+    after = _siblings(lp)
+    after = after[[i for i, x in enumerate(after) if x is lp][0] + 1:]
+    flush = [c for s in after for c in walk_no_nested(s) if is_method_call(c, 'append') and norm(c.func.value) == P
+             and [norm(a) for a in c.args] == [CUR]]
+    okf = False
+    if flush:
+        gs = [g for g in guards_of(_stmt_of(flush[0]), stop=parent(lp)) if g.kind in ('if', 'exit')]
+        gs = [g for g in gs if not inside(lp, g.node)]
+        okf = True
+        for n in (1, 2):
+            def leaf(e, n=n):
+                if isinstance(e, ast.Name) and e.id == CUR:
+                    return n
+                if isinstance(e, ast.Call) and norm(e.func) == 'len' and [norm(a) for a in e.args] == [CUR]:
+                    return n
+                return NotImplemented
+            try:
+                okf = okf and all(bool(Evaluator({}, arith=True, leaf=leaf).ev(g.test)) == g.polarity for g in gs
+                                  if mentions(g.test, CUR))
+            except AnalysisError:
+                okf = False
+    if okf:
+        r.ok(m, fn, f"{norm(_stmt_of(flush[0]))[:60]}: the last, unfinished part is stored")
+    else:
+        r.bad(m, fn, f"{P}.append({CUR}) after the trace-breaking loop", "the last part is not stored whenever it is non-empty: "
+              "its blocks are missing from the super-block", lp.lineno)
+
+
+def _check_nontrivial(r, im, E0):
+    """every SCC with two or more blocks reaches the generation of a super-block"""
+    S = im.scc_name
+    gs = [g for g in guards_of(E0) if g.kind in ('if', 'exit') and mentions(g.test, S)
+          and any(isinstance(n, ast.Call) and norm(n.func) == 'len' for n in ast.walk(g.test))]
+    if not gs:
+        return
+    region = {}
+    for n in (1, 2, 3, 4, 7):
+        def leaf(e, n=n):
+            if isinstance(e, ast.Call) and norm(e.func) == 'len' and [norm(a) for a in e.args] == [S]:
+                return n
+            return NotImplemented
+        region[n] = all(bool(Evaluator({}, arith=True, leaf=leaf).ev(g.test)) == g.polarity for g in gs)
+        r.evaluations += 1
+    cons = ' and '.join(f"{'' if g.polarity else 'not '}({norm(g.test)})" for g in gs) + f" before {norm(E0)[:40]}"
+    missed = [n for n in (2, 3, 4, 7) if not region[n]]
+    if missed:
+        r.bad(im.mod, im.qual, cons, f"an SCC with {missed[0]} blocks does not get a super-block: it is scheduled like a single "
+              f"block, so the other blocks of the cycle are dropped or the cycle is evaluated once", E0.lineno)
+    else:
+        r.ok(im.mod, im.qual, cons + ": every SCC with >= 2 blocks gets a super-block")
+
+
+def rule_cover(repo):
+    r = RuleResult('R-C11-cover',
+                   "the loop re-evaluates every block of the SCC: the BFS schedule reaches the whole SCC from a non-empty "
+                   "seed, and the generated loop calls exactly the blocks of that schedule (directly, through the tick "
+                   "function, or through the trace-breaking partition)")
+    for im in impls(repo):
+        im.locate()
+        if not im._collected:
+            _check_collection(RuleResult('scratch', ''), im)
+        if im.scc_name is None:
+            raise AnalysisError(f"{im.qual}: cannot identify the SCC set")
+        for E0 in emission_stmts(im):
+            _check_nontrivial(r, im, E0)
+        lists = _check_emitted_blocks(r, im)
+        whole = sorted({n for k, n in lists if k == 'whole'})
+        parts = sorted({n for k, n in lists if k in ('last', 'parts')})
+        if len(whole) != 1:
+            r.bad(im.mod, im.qual, f"block lists {whole}", "the generated loops do not all run one and the same schedule of "
+                  "the SCC")
+            continue
+        Q, w = _check_bfs(r, im, whole[0])
+        if Q is not None:
+            _check_seeds(r, im, Q, w)
+        for P in parts:
+            _check_partition(r, im, whole[0], P)
+    _floor(r, 60)
+    return r
+
+
+
+# ---------------------------------------------------------------------------
+# R-C11-siblings
+def _openloop_observation(repo):
+    """OpenLoopCLPass carries a third copy of the SCC code; it is outside C11's anchors: observation only"""
+    try:
+        if not repo.exists(OPENLOOP):
+            return "OpenLoopCLPass.py not present"
+        m = repo.mod(OPENLOOP)
+        f = m.get_func('OpenLoopCLPass.schedule_with_top_level_callee')
+        notes = []
+        if not any(is_method_call(n, 'get_all_update_once') for n in ast.walk(f)):
+            notes.append("no update_once-in-SCC rejection")
+        b = SrcBuilder(f)
+        emits = b.run_all()
+        kinds = set()
+        for e in emits:
+            g = Gen(_Stub('OpenLoop'), e)
+            kinds |= {f"{c}/{k}" for c, k, _, _ in g.problems}
+        if kinds:
+            notes.append(f"generated loop ({len(emits)} variants) deviates: {', '.join(sorted(kinds))}")
+        if not any(isinstance(n, ast.Raise) and 'variables' in ' '.join(norm(g.test) for g in guards_of(n))
+                   for n in walk_no_nested(f)):
+            notes.append("no empty-variable-set rejection")
+        return "OpenLoopCLPass (outside the anchors of C11) carries a divergent third copy of the SCC code: " + \
+            ('; '.join(notes) if notes else 'no deviation seen')
+    except AnalysisError as e:
+        return f"OpenLoopCLPass copy of the SCC code (outside the anchors of C11) could not be analysed: {e}"
+
+
+def rule_siblings(repo):
+    r = RuleResult('R-C11-siblings',
+                   "both cyclic-capable schedulers give a cycle the same number of passes before UpblkCyclicError "
+                   "(one iteration bound in every generated variant, equal in Dynamic and Mamba)")
+    per = {}
+    for im in impls(repo):
+        bs = sorted({b for g in im.gens() for b in g.bounds})
+        per[im.name] = bs
+        n = len(im.gens())
+        if len(bs) == 1:
+            r.ok(im.mod, im.qual, f"{n} generated variants: the error is forced in iteration {bs[0]}")
+        else:
+            r.bad(im.mod, im.qual, f"iteration bounds {bs}", f"the generated variants of one scheduler do not share one "
+                  f"iteration bound ({bs or 'none found'})")
+    a, b = (impls(repo)[0], impls(repo)[1])
+    if per[a.name] and per[b.name]:
+        if per[a.name] == per[b.name]:
+            r.ok(a.mod, a.qual, f"iteration bound {per[a.name][0]} == bound in {b.qual}")
+        else:
+            r.bad(b.mod, b.qual, f"iteration bound {per[b.name]} vs {per[a.name]} in {a.rel}",
+                  f"{a.name} forces the error in iteration {per[a.name]}, {b.name} in iteration {per[b.name]}: a cycle that "
+                  f"needs a number of passes between the two bounds settles under one scheduler and raises under the other "
+                  f"({a.rel}:{a.root.lineno} / {b.rel}:{b.root.lineno})")
+    r.observations.append(_openloop_observation(repo))
+    _floor(r, 3)
+    return r
+
+
+# ---------------------------------------------------------------------------
+# R-C11-acyclic
+def rule_acyclic(repo):
+    r = RuleResult('R-C11-acyclic',
+                   "the acyclic-only scheduler rejects a cyclic block graph: check_schedule raises UpblkCyclicError exactly "
+                   "when the topological sort scheduled fewer blocks than there are, and is called on the complete result")
+    m = repo.mod(SIMPLE)
+    f = m.functions.get('check_schedule')
+    if f is None:
+        raise AnalysisError("anchor vanished: check_schedule")
+    params = [a.arg for a in f.args.args]
+    if len(params) < 3:
+        raise AnalysisError("check_schedule: unexpected signature")
+    S, V = params[1], params[2]
+    ifs = [s for s in f.body if isinstance(s, ast.If) and mentions(s.test, S) and mentions(s.test, V)]
+    if len(ifs) != 1:
+        r.bad(m, 'check_schedule', f"len({S}) vs len({V})", "the completeness test of the schedule is missing: a cyclic "
+              "design is scheduled partially and simulated without its cycle", f.lineno)
+    else:
+        st = ifs[0]
+        region = {}
+        for ls in range(3):
+            for lv in range(3):
+                def leaf(e, ls=ls, lv=lv):
+                    if isinstance(e, ast.Call) and norm(e.func) == 'len' and len(e.args) == 1:
+                        if norm(e.args[0]) == S:
+                            return ls
+                        if norm(e.args[0]) == V:
+                            return lv
+                    return NotImplemented
+                region[(ls, lv)] = bool(Evaluator({}, arith=True, leaf=leaf).ev(st.test))
+                r.evaluations += 1
+        rzs = [n for b in st.body for n in walk_no_nested(b) if isinstance(n, ast.Raise)]
+        cls_ok = all(isinstance(z.exc, ast.Call) and isinstance(z.exc.func, ast.Name) and
+                     (lambda res: bool(res) and isinstance(res[1], ast.ClassDef) and res[1].name == 'UpblkCyclicError'
+                      and res[0].rel == ERRORS)(repo.resolve(m, z.exc.func.id)) for z in rzs)
+        cons = f"if {norm(st.test)}: raise"
+        missed = [k for k, v in region.items() if k[0] < k[1] and not v]
+        spurious = [k for k, v in region.items() if k[0] == k[1] and v]
+        if missed:
+            r.bad(m, 'check_schedule', cons, f"an incomplete schedule (scheduled, total) = {missed[0]} is accepted: the blocks "
+                  f"of a cycle are silently dropped", st.lineno)
+        elif spurious:
+            r.bad(m, 'check_schedule', cons, f"a complete schedule {spurious[0]} is rejected", st.lineno)
+        elif not (always_exits(st.body) and exit_kind(st.body) == {'raise'} and rzs and cls_ok):
+            r.bad(m, 'check_schedule', cons, "the incomplete-schedule branch does not end in raise UpblkCyclicError", st.lineno)
+        else:
+            r.ok(m, 'check_schedule', cons + " UpblkCyclicError exactly when fewer blocks were scheduled than exist")
+        calls_io = [c for s in st.body for c in walk_no_nested(s) if isinstance(c, ast.Call) and isinstance(c.func, ast.Name)
+                    and c.func.id in m.functions and
+                    any(isinstance(n, (ast.Import, ast.ImportFrom)) for n in ast.walk(m.functions[c.func.id]))]
+        if calls_io:
+            r.observations.append(
+                f"check_schedule runs {', '.join(sorted({c.func.id for c in calls_io}))}(...) (graphviz import, render with "
+                f"view=True) before `raise UpblkCyclicError`; when that helper fails (graphviz or a desktop opener such as "
+                f"xdg-open missing) its exception replaces the cyclic-dependency error (reproduced: FileNotFoundError "
+                f"'xdg-open' for a 2-block loop under SimpleSchedulePass); upstream keeps the corresponding tests disabled")
+    # call site: after the Kahn loop, on the schedule list and the vertex set
+    for qual in ('SimpleSchedulePass.schedule_intra_cycle',):
+        g = m.get_func(qual)
+        calls = [s for s in g.body if isinstance(s, ast.Expr) and isinstance(s.value, ast.Call)
+                 and norm(s.value.func) == 'check_schedule']
+        whiles = [s for s in g.body if isinstance(s, ast.While)]
+        if len(calls) != 1 or not whiles:
+            r.bad(m, qual, 'check_schedule(...)', "the acyclic-only scheduler does not check its result unconditionally: a "
+                  "cyclic design is scheduled partially", g.lineno)
+            continue
+        c = calls[0]
+        args = [norm(a) for a in c.value.args]
+        appended = {norm(x.func.value) for w in whiles for x in ast.walk(w) if is_method_call(x, 'append')}
+        vset = [v for v in assigned_values(g, args[2])] if len(args) > 2 else []
+        after = g.body.index(c) > max(g.body.index(w) for w in whiles)
+        if len(args) >= 3 and args[1] in appended and after and vset and any('final_upblks' in norm(v) for v in vset):
+            r.ok(m, qual, f"{norm(c)} after the topological sort")
+        else:
+            r.bad(m, qual, norm(c), "check_schedule is not applied to (the list filled by the topological sort, the vertex "
+                  "set) after the sort has finished", c.lineno)
+    _floor(r, 2)
+    return r
+
+
+def rule_metaname(repo):
+    from sa.astutil import reaching_value
+    """compile_scc (Mamba) binds the meta blocks of a large SCC in the super-block's globals under b.__name__ and calls
+    them by that name: the names handed out by compile_meta_block must therefore be pairwise distinct."""
+    r = RuleResult('R-C11-metaname', "every meta block of a trace-broken SCC is bound and called under its own distinct name")
+    m = repo.mod(MAMBA)
+    f = m.get_func('Mamba2020Pass.compile_meta_block')
+    # the name of the generated function: `def meta_block{X}` with X resolved to a counter
+    srcs = [n for n in ast.walk(f) if isinstance(n, ast.JoinedStr) and any(isinstance(v, ast.Constant) and 'def ' in str(v.value) for v in n.values)]
+    if len(srcs) != 1:
+        raise AnalysisError("compile_meta_block: generated function header not found")
+    holes = [v.value for v in srcs[0].values if isinstance(v, ast.FormattedValue)]
+    if len(holes) != 1 or not isinstance(holes[0], ast.Name):
+        raise AnalysisError("compile_meta_block: header hole is not a simple name")
+    idn = holes[0].id
+    src = reaching_value(idn, srcs[0])
+    counter = norm(src) if src is not None else None
+    incs = [s_ for s_ in f.body if isinstance(s_, ast.AugAssign) and isinstance(s_.op, ast.Add) and norm(s_.target) == counter
+            and norm(s_.value) == '1']
+    keyed_by_name = False
+    cs = m.get_func('Mamba2020Pass.schedule_intra_cycle.compile_scc')
+    for n in ast.walk(cs):
+        if isinstance(n, ast.Assign) and isinstance(n.targets[0], ast.Subscript) and norm(n.targets[0].value) == '_globals' \
+                and '__name__' in norm(n.targets[0].slice):
+            keyed_by_name = True
+    cons = f"def meta_block{{{idn}}} with {idn} = {counter}; counter advanced once per call"
+    if not keyed_by_name:
+        r.ok(m, 'Mamba2020Pass.compile_meta_block', cons, nontrivial=False, note="compile_scc no longer keys by __name__")
+    elif counter is None or not counter.startswith('self.') or len(incs) != 1 or guards_of(incs[0]):
+        r.bad(m, 'Mamba2020Pass.compile_meta_block', cons,
+              "meta blocks do not get distinct names: compile_scc binds them in the SCC loop's globals by __name__, so for an SCC that "
+              "is split into several meta blocks every call resolves to the last one and the earlier blocks never run", f.lineno)
+    else:
+        r.ok(m, 'Mamba2020Pass.compile_meta_block', cons)
+    # the returned function is looked up under the same name
+    rets = [n for n in ast.walk(f) if isinstance(n, ast.Assign) and norm(n.targets[0]) == 'ret']
+    ok = len(rets) == 1 and isinstance(rets[0].value, ast.Subscript) and isinstance(rets[0].value.slice, ast.JoinedStr) and \
+        [norm(v.value) for v in rets[0].value.slice.values if isinstance(v, ast.FormattedValue)] == [idn]
+    (r.ok if ok else r.bad)(m, 'Mamba2020Pass.compile_meta_block', "returned function fetched as _locals[f'meta_block{id}']",
+                            *([] if ok else ["the compiled meta block is not fetched under the name it was defined with", f.lineno]))
+    r.require_floor(2)
+    return r
+
+
+RULES = [rule_template, rule_watch, rule_once, rule_cover, rule_siblings, rule_acyclic, rule_metaname]
+
+EXPLANATION = (
+    "Static analysis of the two cyclic-capable schedulers (DynamicSchedulePass.schedule_intra_cycle, "
+    "Mamba2020Pass.schedule_intra_cycle.compile_scc); nothing is imported or run. The Python code that builds the SCC "
+    "super-block source (string template, f-string line lists, joins, the globals dictionary handed to exec) is partially "
+    "evaluated over symbolic values (loops over unknown containers unrolled once/twice, branches on unknown conditions "
+    "forked, repr() of hosts/signals modelled as dotted paths); every resulting source text is parsed and its bounded "
+    "paths are interpreted. R-C11-template decides: the generated loop cannot hang (a counter with constant start is "
+    "stepped on every pass and exceeding a constant raises UpblkCyclicError, the class being resolved through the exec "
+    "globals), and every normal exit is preceded by snapshot -> every block call -> every watched variable compared "
+    "unchanged (so a changed variable always re-iterates); all names used by the generated code are bound. R-C11-watch "
+    "decides that the watched set covers every variable carrying the cycle: GenDAGPass records the inducing signal under the "
+    "key of every value-induced edge it adds; union of constraint_objs[(u,v)] over all edges "
+    "inside the SCC with no other filter and the stored key orientation, the reduction keeps each variable or its top-level "
+    "signal on every path, every kept variable is grouped under its host and gets exactly one snapshot and one comparison, "
+    "the snapshot is clone()/deepcopy (never an alias) and is compared with the same variable. R-C11-once decides that an "
+    "update_once block in the SCC and an SCC without value-carrying variables raise UpblkCyclicError before the block is "
+    "generated. R-C11-cover decides that the generated loop calls exactly the blocks of the BFS schedule and that the BFS "
+    "(push region, marking, seeds incl. the direction of the predecessor-SCC search, Mamba's trace-breaking partition) "
+    "loses no block of the SCC, and that every SCC with two or more blocks gets a super-block. R-C11-siblings: both schedulers use the same iteration bound. R-C11-acyclic: "
+    "SimpleSchedulePass rejects an incomplete topological sort with UpblkCyclicError. NOT decided: convergence itself, "
+    "and that for a false loop the values equal those of the equivalent acyclic design (runtime values); that update "
+    "blocks are pure functions of the signals they read. The OpenLoopCLPass copy of the SCC code is outside the anchors "
+    "and only reported as an observation.")
+ASSUMPTIONS = [
+    "a full pass over all blocks of an SCC that leaves every signal on an intra-SCC edge unchanged is a fixed point "
+    "(update blocks are deterministic functions of the signals they read; single writer per signal, C09)",
+    "top._dag.constraint_objs[(u,v)] holds the signals inducing edge u->v (C02, GenDAGPass); Kosaraju's algorithm and the "
+    "strong connectivity of an SCC (a BFS inside the SCC from any of its blocks reaches all of it)",
+    "repr(signal) == repr(host component) + '.' + member path; repr(top) == 's'; Bits/bitstruct clone() and copy.deepcopy "
+    "return independent copies; != on signals compares values",
+    "str.format / f-string / join semantics of Python; py.code.Source dedents; custom_exec behaves like exec",
+    "scc_pred[v] is only set along an existing edge of the condensation graph, so the predecessor SCC has an edge into v",
+]
+
+
+# ---------------------------------------------------------------------------
+# self-test of the checker (thorough tier)
+def _m(name, old, new, rule=None, file=DYN, count=1):
+    return dict(name=name, file=file, old=old, new=new, rule=rule, count=count)
+
+
+MUTANTS = [
+    dict(name='meta-block-id-not-advanced', file=MAMBA, old="    meta_id = self.meta_block_id\n    self.meta_block_id += 1\n", new="    meta_id = self.meta_block_id\n", rule='R-C11-metaname', count=1),
+    dict(name='once-rejection-all', file=DYN, old="        for x in scc:\n          if x in onces:\n            raise UpblkCyclicError(\"update_once blocks", new="        if all( x in onces for x in scc ):\n          if True:\n            raise UpblkCyclicError(\"update_once blocks", rule='R-C11-once', count=1),
+    # --- the loop skeleton (template)
+    _m('dyn-bound-test-inverted', "    if N > 100:\n", "    if N < 100:\n", 'R-C11-template'),
+    _m('mamba-counter-not-stepped', "    N += 1\n", "    N += 0\n", 'R-C11-template', file=MAMBA),
+    _m('dyn-bound-only-prints', 'raise UpblkCyclicError("Combinational loop detected at runtime',
+       'print("Combinational loop detected at runtime', 'R-C11-template'),
+    _m('mamba-changed-does-not-reiterate', """: continue" )""", """: pass" )""", 'R-C11-template', file=MAMBA),
+    _m('dyn-changed-leaves-loop', """: continue" )""", """: break" )""", 'R-C11-template'),
+    _m('dyn-any-becomes-all', "' or '.join(sub_check_srcs)", "' and '.join(sub_check_srcs)", 'R-C11-template'),
+    _m('mamba-compare-before-snapshot', "    {1}\n    {3}\n    {2}", "    {2}\n    {3}\n    {1}", 'R-C11-template', file=MAMBA),
+    _m('dyn-snapshot-after-the-pass', "    {1}\n    scc_tick_func()\n    {2}", "    scc_tick_func()\n    {1}\n    {2}",
+       'R-C11-template'),
+    _m('mamba-no-normal-exit', "    break\ngenerated_block", "    continue\ngenerated_block", 'R-C11-template', file=MAMBA),
+    _m('dyn-wrong-exception-class', "'UpblkCyclicError': UpblkCyclicError }", "'UpblkCyclicError': Exception }", 'R-C11-template'),
+    _m('dyn-deepcopy-not-provided', "'deepcopy': deepcopy,\n", "\n", 'R-C11-template'),
+    _m('mamba-s-bound-to-pass-object', "_globals = { 's': top,", "_globals = { 's': self,", 'R-C11-template', file=MAMBA),
+    _m('dyn-wrong-entry-name', "return _locals[ 'generated_block' ]", "return _locals[ 'generated_blk' ]", 'R-C11-template'),
+    _m('mamba-loop-exits-on-counter', "  while True:\n", "  while N < 100:\n", 'R-C11-template', file=MAMBA),
+    _m('dyn-host-prefix-off-by-one', "subname = repr(var)[hostlen+1:]", "subname = repr(var)[hostlen:]", 'R-C11-template'),
+    # --- what is watched
+    _m('dyn-bits-snapshot-aliases', """copy_srcs.append( f"t{var_id}=host.{subname}.clone()" )""",
+       """copy_srcs.append( f"t{var_id}=host.{subname}" )""", 'R-C11-watch', count='first'),
+    _m('mamba-other-snapshot-aliases', """f"t{var_id}=deepcopy(host.{subname})" """, """f"t{var_id}=host.{subname}" """,
+       'R-C11-watch', file=MAMBA),
+    _m('dyn-temporaries-collide', "            var_id += 1\n", "            var_id += 0\n", 'R-C11-watch'),
+    _m('mamba-compare-other-temporary', """f"host.{subname} != t{var_id}" """, """f"host.{subname} != t{var_id-1}" """,
+       'R-C11', file=MAMBA),
+    _m('mamba-check-host-not-rebound', """        check_srcs.append( f"host = {host!r}" )""", """        pass""", 'R-C11-watch',
+       file=MAMBA),
+    _m('dyn-constraint-key-swapped', "constraint_objs[ (u, v) ]", "constraint_objs[ (v, u) ]", 'R-C11-watch'),
+    _m('mamba-edge-filter-wrong', "        if u in scc and v in scc:\n          variables.update",
+       "        if u in scc and v not in scc:\n          variables.update", 'R-C11-watch', file=MAMBA),
+    _m('dyn-bits-top-not-added', "            if w not in final_variables:\n              final_variables.add( w )",
+       "            if w not in final_variables:\n              pass", 'R-C11-watch'),
+    _m('mamba-struct-field-dropped', "          if w not in final_variables:\n            final_variables.add( x )",
+       "          if w in final_variables:\n            final_variables.add( x )", 'R-C11-watch', file=MAMBA),
+    _m('dyn-reduction-skips-first', "for x in sorted( variables, key=repr ):", "for x in sorted( variables, key=repr )[1:]:",
+       'R-C11-watch'),
+    _m('mamba-grouping-skips-last', "      for x in final_variables:\n", "      for x in list(final_variables)[:-1]:\n",
+       'R-C11-watch', file=MAMBA),
+    _m('dyn-grouped-by-parent', "final_var_host[ x.get_host_component() ]", "final_var_host[ x.get_parent_object() ]",
+       'R-C11-watch'),
+    _m('mamba-emission-skips-first', "        for var in var_list:\n", "        for var in var_list[1:]:\n", 'R-C11-watch',
+       file=MAMBA),
+    _m('dyn-struct-no-snapshot', """elif is_bitstruct_class( var._dsl.Type ): copy_srcs.append( f"t{var_id}=host.{subname}.clone()" )""",
+       """elif is_bitstruct_class( var._dsl.Type ): pass""", 'R-C11-watch'),
+    _m('mamba-edge-set-reversed', "        E.add( (u, v) )", "        E.add( (v, u) )", 'R-C11-watch', file=MAMBA),
+    _m('gendag-reader-edge-not-recorded', "                impl_constraints.add( (wr_blk, rd_blk) ) # wr < rd default\n                constraint_objs[ (wr_blk, rd_blk) ].add( obj )",
+       "                impl_constraints.add( (wr_blk, rd_blk) ) # wr < rd default", 'R-C11-watch', file=GENDAG),
+    _m('gendag-writer-edge-recorded-reversed', "                  constraint_objs[ (wr_blk, rd_blk) ].add( obj )",
+       "                  constraint_objs[ (rd_blk, wr_blk) ].add( obj )", 'R-C11-watch', file=GENDAG),
+    _m('gendag-explicit-edge-wrong-key', "                constraint_objs[ (co_blk, eq_blk) ].add( obj )",
+       "                constraint_objs[ (eq_blk, co_blk) ].add( obj )", 'R-C11-watch', file=GENDAG),
+    _m('gendag-records-the-block', "                constraint_objs[ (eq_blk, co_blk) ].add( obj )",
+       "                constraint_objs[ (eq_blk, co_blk) ].add( eq_blk )", 'R-C11-watch', file=GENDAG),
+    # --- rejections
+    _m('dyn-once-test-inverted', "          if x in onces:\n", "          if x not in onces:\n", 'R-C11-once'),
+    _m('dyn-onces-never-consulted', "onces = top.get_all_update_once()", "onces = set()", 'R-C11-once'),
+    _m('mamba-once-loop-skips', "      for x in scc:\n        if x in onces:", "      for x in list(scc)[1:]:\n        if x in onces:",
+       'R-C11-once', file=MAMBA),
+    _m('mamba-novar-off-by-one', "if len(variables) == 0:", "if len(variables) == 1:", 'R-C11-once', file=MAMBA),
+    _m('dyn-novar-wrong-class', 'raise UpblkCyclicError("There is a cyclic dependency', 'raise Exception("There is a cyclic dependency',
+       'R-C11-once'),
+    _m('mamba-novar-check-disabled', "if len(variables) == 0:", "if False:", 'R-C11-once', file=MAMBA),
+    # --- every block of the SCC is in the loop
+    _m('dyn-bfs-leaves-the-scc', "            if v in scc and v not in visited:", "            if v not in visited:", 'R-C11-cover'),
+    _m('mamba-seed-search-wrong-direction', "          for v in G_T[x]:", "          for v in G[x]:", 'R-C11-cover', file=MAMBA),
+    _m('dyn-popped-block-not-scheduled', "          tmp_schedule.append( u )", "          pass", 'R-C11-cover'),
+    _m('mamba-unroll-skips-first-block', "        for i, b in enumerate(tmp_schedule):", "        for i, b in enumerate(tmp_schedule[1:]):",
+       'R-C11-cover', file=MAMBA),
+    _m('mamba-part-replaced-unflushed',
+       "              num_blks += len(cur_meta)\n              scc_schedule.append( cur_meta )\n              cur_meta, cur_br, cur_count = [ blk ]",
+       "              cur_meta, cur_br, cur_count = [ blk ]", 'R-C11-cover', file=MAMBA),
+    _m('mamba-tail-part-dropped', "          num_blks += len(cur_meta)\n          scc_schedule.append( cur_meta )\n\n        assert",
+       "          num_blks += len(cur_meta)\n\n        assert", 'R-C11-cover', file=MAMBA),
+    _m('dyn-bfs-never-marks', "              visited.add( v )\n\n        scc_id += 1", "              pass\n\n        scc_id += 1", 'R-C11-cover'),
+    _m('tick-function-skips-first', "      for blk in schedule:", "      for blk in schedule[1:]:", 'R-C11-cover', file=TICK),
+    _m('mamba-last-meta-block-dropped', "for i, meta in enumerate( scc_schedule ):", "for i, meta in enumerate( scc_schedule[:-1] ):",
+       'R-C11-cover', file=MAMBA),
+    _m('dyn-no-seed', "          Q.append( max(InD, key=InD.get) )", "          pass", 'R-C11-cover'),
+    _m('mamba-block-bound-not-called', "_globals[f\"blk{i}\"] = b # put it into the block's closure",
+       "_globals[f\"blk{i}\"] = b; blk_srcs.pop()", 'R-C11-cover', file=MAMBA),
+    _m('dyn-two-block-scc-treated-as-trivial', "      if len(scc) == 1:\n        schedule.append", "      if len(scc) <= 2:\n        schedule.append",
+       'R-C11-cover'),
+    _m('mamba-two-block-scc-treated-as-trivial', "      if len(scc) == 1:\n        return list(scc)[0]", "      if len(scc) < 3:\n        return list(scc)[0]",
+       'R-C11-cover', file=MAMBA),
+    _m('dyn-scc-computed-on-transposed-graph', "SCCs, G_new = kosaraju_scc( G, G_T )", "SCCs, G_new = kosaraju_scc( G_T, G )", 'R-C11-cover'),
+    # --- siblings / acyclic-only pass
+    _m('mamba-bound-differs', "    if N > 100:\n", "    if N > 1000:\n", 'R-C11-siblings', file=MAMBA),
+    _m('simple-incomplete-schedule-accepted', "if len(schedule) != len(V):", "if len(schedule) > len(V):", 'R-C11-acyclic',
+       file=SIMPLE),
+    _m('simple-result-not-checked', "    check_schedule( top, update_schedule, V, E, InD )", "    pass", 'R-C11-acyclic', file=SIMPLE),
+]
+
+EQUIV = [
+    _m('bound-as-ge', "    if N > 100:\n", "    if N >= 101:\n"),
+    _m('compare-operands-swapped', """f"host.{subname} != t{var_id}" """, """f"t{var_id} != host.{subname}" """, file=MAMBA),
+    _m('append-as-augassign', """copy_srcs .append( f"host={host!r}" )""", """copy_srcs += [ f"host={host!r}" ]"""),
+    _m('novar-as-truthiness', "if len(variables) == 0:", "if not variables:", file=MAMBA),
+    _m('exit-by-return', "    break\ngenerated_block", "    return\ngenerated_block"),
+    _m('local-renamed', "sub_check_srcs", "atoms", count=0),
+    _m('once-check-as-any', "        for x in scc:\n          if x in onces:\n            raise UpblkCyclicError(",
+       "        if any( x in onces for x in scc ):\n            raise UpblkCyclicError("),
+    _m('bfs-condition-reordered', "if v in scc and v not in visited:", "if v not in visited and v in scc:", file=MAMBA),
+    _m('list-inits-reordered', "        copy_srcs  = []\n        check_srcs = []", "        check_srcs = []\n        copy_srcs  = []"),
+    dict(name='de-morgan-comparison', edits=[
+        dict(file=DYN, old="""sub_check_srcs.append( f"host.{subname} != t{var_id}" )""",
+             new="""sub_check_srcs.append( f"host.{subname} == t{var_id}" )"""),
+        dict(file=DYN, old="""f"if { ' or '.join(sub_check_srcs)}: continue" """,
+             new="""f"if not ({ ' and '.join(sub_check_srcs)}): continue" """)]),
+    _m('join-through-helper-variable', """        scc_block_src = template.format( scc_id, "; ".join( copy_srcs ),""",
+       """        snap_line = "; ".join( copy_srcs )\n        scc_block_src = template.format( scc_id, snap_line,"""),
+    _m('mamba-bits-slices-watched-directly', "            final_variables.add( w )", "            final_variables.add( x )", file=MAMBA),
+    _m('reduction-test-positive', "          if w not in final_variables:\n            final_variables.add( w )",
+       "          if not (w in final_variables):\n            final_variables.add( w )", file=MAMBA),
+    _m('bfs-as-dfs', "        u = Q.popleft()\n        tmp_schedule.append( u )", "        u = Q.pop()\n        tmp_schedule.append( u )", file=MAMBA),
+    _m('percent-formatting', """copy_srcs.append( f"host = {host!r}" )""", """copy_srcs.append( "host = %r" % (host,) )""", file=MAMBA),
+    _m('variable-loop-with-enumerate', "          for var in var_list:\n            var_id += 1\n",
+       "          for var_id, var in enumerate(var_list, var_id+1):\n"),
+    _m('while-one', "  while True:\n", "  while 1:\n", file=MAMBA),
+    dict(name='counter-starts-at-one', edits=[dict(file=DYN, old="  N = 0\n", new="  N = 1\n"),
+                                              dict(file=DYN, old="    if N > 100:\n", new="    if N > 101:\n")]),
+    _m('bounded-for-else-loop',
+       """  N = 0
+  while True:
+    N += 1
+    if N > 100:
+      raise UpblkCyclicError("Combinational loop detected at runtime in {{{3}}} after 100 iters!")
+    {1}
+    scc_tick_func()
+    {2}
+    # print( "SCC block{0} is executed", num_iters, "times" )
+    break
+""", """  for N in range(100):
+    {1}
+    scc_tick_func()
+    {2}
+    break
+  else:
+    raise UpblkCyclicError("Combinational loop detected at runtime in {{{3}}} after 100 iters!")
+"""),
+    _m('once-check-as-intersection', "      for x in scc:\n        if x in onces:\n          raise UpblkCyclicError(",
+       "      if scc & onces:\n          raise UpblkCyclicError(", file=MAMBA),
+]
+
+LEVEL_TEXT = ("Static analysis of the two cyclic-capable schedulers: the Python code that generates the SCC super-block is "
+              "partially evaluated (string template, generated line lists, exec globals) into every source text it can "
+              "produce for one/two hosts, one/two variables of each kind and each way of emitting the block calls; each text "
+              "is parsed and all bounded paths are interpreted to show that the loop is bounded by a counter that raises "
+              "UpblkCyclicError and that every normal exit follows snapshot -> all blocks -> all watched variables unchanged. "
+              "Path-sensitive must-rules on the real code show that the watched set covers every variable on an intra-SCC "
+              "edge, that update_once / variable-free SCCs are rejected before generation and that the BFS schedule and its "
+              "partition lose no block. Decides the structural clauses of the property for all designs; convergence and the "
+              "values of false loops are not decided.")
+LEVEL_NOTE = ("Trusted: a full pass leaving all intra-SCC signals unchanged is a fixed point (pure blocks, single writer), "
+              "constraint_objs content (C02), Kosaraju/strong connectivity, repr(signal) = repr(host)+'.'+path, clone/deepcopy "
+              "copy, Python string formatting. Not decided: convergence, equality with the acyclic design, purity of user "
+              "blocks. OpenLoopCLPass's divergent copy and check_schedule's dump_dag-before-raise are observations only.")
+TECHNIQUE = ("partial evaluation of source-building code over symbolic values (template/sequence domain), ast.parse of the "
+             "generated text, bounded path enumeration with snapshot/compare typestate, counter ranking argument, "
+             "path-sensitive must-cover rules, Boolean region evaluation of guards, def-use direction facts")
